@@ -12,2468 +12,1177 @@ Definition show_fres (r : fres) : string :=
   end.
 Definition check (rs : list rune) : string := digest (show_fres (format_res rs)).
 Definition full (rs : list rune) : string := show_fres (format_res rs).
-Eval vm_compute in ("<<<M3891>>>" ++ check (runes_of_ascii "MetaData string_ {
-}
-
-packet Packet {
-    // @lengthOf(
-    zchar[65535] metadata,
-}
-
-MetaData body {
-    u packetx,
-    char[] roots `" ++ [233]%N ++ runes_of_ascii "`,
-    i32 Header,
-    uint32 packetx,
-}
-
-packet Foo {
-    @rightPad()
-    match crc as u128 {
-        // c
-        ""it's"" : As,
-        0 : x_y_z,
-        """" : msg_type,
-    },
-    match pack as x_y_z {
-        255 : msg_type,
-    },
-    i8 A,
-    int8 BodyLength @lengthOf(tag),
-    @calculatedFrom(""CRC32"")
-    match int as Header {
-        4294967296 : x_y_z,
-        // @lengthOf(
-    },
-    match chars as calculatedFrom {
-        [
-            0, 0, 1, 0123456789, 00,
-            ""a\""b"", 4294967296
-        ] : stringy,
-        ""`tick`"" : T,
-    },
-    @tag(0)
-    @tag(1)
-    @lengthOf(u8x)
-    u8x {
-        body,
-        repeat calculatedFrom x_y_z `two words`,
-    },
-    match falsey as leftPad {
-        007 : A,
-        [""" ++ [28040; 24687]%N ++ runes_of_ascii """] : tag,
-        1 : Pad,
-    },// c
-    float64 repeatCount,
-    @tag(10)
-    match stringy as Logon {
-        7 : Pad,
-    },
-}
-
-packet Packet {
-    @calculatedFrom(""\n"")
-    @calculatedFrom(""`tick`"")
-    matchKey,
-    @lengthOf(zchar)
-    roots {
-        repeat i16 Z9_,
-        match repeatCount as stringy {
-            [""x y""] : packetx,
-            [""" ++ [128512]%N ++ runes_of_ascii """, ""x y"", ""\n""] : crc,
-        },
-    },// packet A { u8 x, }
-    match tag as a1 {
-        ""abc"" : packetx,
-        1 : u8x,
-        1 : body,
-        007 : leftPad,
-        0123456789 : Header,
-    },
-    i16 x_y_z,
-    @calculatedFrom(""{,}"")
-    o `it's`,
-    string_ @calculatedFrom(""it's"") `crlf
-    line`,
-    match i8i8 as lengthOf {
-        [1, ""a\\"", 42, """", ""a\\""] : o,
-        10 : Foo,
-        //x
-        [7] : lengthOf,
-    },
-    repeat A {
-        repeat T {
-            char[007] i64_ @lengthOf(Packet),
-            match T as repeatCount {
-                ""x y"" : As,
-            },
-            repeat metadata,
-            msg_type {
-                float64 float,
-                i8 o `u8 x,`,
-                char[0] A @calculatedFrom(""1"") `two words`,
-                i8 body @lengthOf(Packet),
-            },//
-        },
-        rootA {
-            f32a @lengthOf(pack),
-        },
-        repeat char[] u,
-    },
-}")).
-Eval vm_compute in ("<<<M4243>>>" ++ check (runes_of_ascii "MetaData BodyLength {
-    zchar[42] falsey,
-    x_y_z trueish `{ , }`,
-    options1 Header `
-    `,
-    uint8 Header `tab	here`,
-    uint8 zchar,
-    float64 len,
-}
-
-packet chars {
-    zchar[00] options1,
-    zchar[7] Header,
-    @tag(0)
-    char[] MetaDataX `line1
-    line2`,
-    repeat metadata {
-        i64 MetaDataX,
-        int8 o,
-        leftPad Pad,
-        string Z9_ `u8 x,`,
-    },
-    @leftPad('0')
-    u64 calculatedFrom @calculatedFrom(""a\""b""),
-    @lengthOf(leftPad)
-    repeat Foo `line1
-    line2`,
-}
-
-packet options1 {
-    @tag(00)
-    body asx,
-    // a // b
-    // " ++ [128512]%N ++ runes_of_ascii " emoji
-    repeat MetaDataX {
-        repeat i64 u8x `" ++ [233]%N ++ runes_of_ascii "`,
-    },
-    pack @calculatedFrom(""CRC32"") `
-    `,
-    repeat Pad {
-        Foo {
-            repeat i8i8,
-            MetaDataX,
-            // @lengthOf(
-            lengthOf @calculatedFrom(""abc"") `// not a comment`,/// triple
-        },
-    },
-    float64 string_ @calculatedFrom(""it's"") `u8 x,`,
-    i8 Z9_ @lengthOf(_x),
-    BodyLength matchKey `tab	here`,
-    uint64 As @calculatedFrom(""// no comment""),
-}
-
-packet leftPad {
-    match packetx as Foo {
-        [""x y"", 3] : As,
-        00 : leftPad,
-        [""\n"", """"] : MetaDataX,
-        00 : x,
-        """" : int,
-    },
-    i32 Foo,
-    repeat string roots,
-    repeat body chars `" ++ [28040; 24687; 31867; 22411]%N ++ runes_of_ascii "`,
-    int `" ++ [233]%N ++ runes_of_ascii "`,
-    @rightPad(' ')
-    string BodyLength,
-    @lengthOf(lengthOf)
-    char uint8x `line1
-    line2`,
-    zchar[00] repeatCount @calculatedFrom(""" ++ [28040; 24687]%N ++ runes_of_ascii """),
-    @calculatedFrom(""a	b"")
-    falsey @calculatedFrom(""1"") `crlf
-    line`,
-}//x
-
-packet Header {
-    // trailing space 
-    @calculatedFrom(""" ++ [28040; 24687]%N ++ runes_of_ascii """)
-    int64 u `crlf
-    line`,
-    @calculatedFrom(""CRC32"")
-    // packet A { u8 x, }
-    int64 uint8x,
-    char[255] Foo `
-    `,
-}")).
-Eval vm_compute in ("<<<M3909>>>" ++ check (runes_of_ascii "packet a1 {
-    repeat uint8x {
-        zchar[3] metadata @lengthOf(chars) `it's`,
-        u8 packetx @calculatedFrom(""CRC32"") `two words`,
-        repeat leftPad {
-            match MetaDataX as f32a {
-                [4294967296] : packetx,
-                255 : As,
-                [""\n"", ""\" ++ [233]%N ++ runes_of_ascii """, 007, """ ++ [128512]%N ++ runes_of_ascii """, 7] : float,
-                0123456789 : u128,
-                ""a\""b"" : calculatedFrom,
-            },
-            match len as u {
-                [42, 4294967296] : a1,
-                ""it's"" : rootA,
-                7 : lengthOf,
-                ""`tick`"" : rootA,
-                4294967296 : calculatedFrom,
-            },
-            repeat string MetaDataX `it's`,
-        },
-        uint16 uint8x,
-    },
-    string_ @lengthOf(u),
-    zchar[0123456789] pack @calculatedFrom("""") `u8 x,`,
-    @lengthOf(x_y_z)
-    @lengthOf(u128)
-    @tag(007)
-    zchar[10] _x `doc`,
-    string BodyLength,
-    // `tick` ""quote"" 'q'
-    // `tick` ""quote"" 'q'
-    i64 msg_type `u8 x,`,
-    f64 Pad `say ""hi""`,
-    string float,
-    f64 lengthOf @calculatedFrom(""" ++ [28040; 24687]%N ++ runes_of_ascii """),// " ++ [128512]%N ++ runes_of_ascii " emoji
-}
-
-options {
-    // packet A { u8 x, }
-    matchKey = f32;
-}
-
-packet Foo {
-    repeat T,
-    repeat string_ {
-        i16 uint8x,
-    },
-    repeat falsey A `doc`,
-    repeat lengthOf i8i8 `tab	here`,
-    repeat char[10] x_y_z ``,//	t
-    @leftPad()
-    @rightPad()
-    options1 `doc`,
-    u32 packetx,
-    u8 float `crlf
-    line`,
-}
-
-packet tag {
-}
-// " ++ [128512]%N ++ runes_of_ascii " emoji")).
-Eval vm_compute in ("<<<M1001>>>" ++ check (runes_of_ascii "packet zchar{uint32 msg_type `a\`	,	char[ // " ++ [27880; 37322]%N ++ runes_of_ascii "
-255 // @lengthOf(
-]packetx `doc`	, @calculatedFrom("""" ) char[] MetaDataX @lengthOf(	A
-)
-    , @calculatedFrom(""it's""
-    ) // @lengthOf(
-string_
-@calculatedFrom( ""a\""b"" )
-`crlf
-line` , char[ 0123456789 ]A `u8 x,`,// trailing space 
-}
-// @lengthOf(
-// `tick` ""quote"" 'q'
-packet chars { @calculatedFrom( ""{,}"" )
-    match i64_ as MetaDataX { // `tick` ""quote"" 'q'
-""`tick`""
-:
-    roots, [ 4294967296	,
-// " ++ [128512]%N ++ runes_of_ascii " emoji
-// trailing space 
-""1""  ] :u  ,// trailing space 
-},
-f32a {
-    pack
-,
-packetx @calculatedFrom( ""a\\"" ) , float64 stringy @calculatedFrom(""// no comment""
-    )`{ , }`	,char[ 4294967296 ]Packet
-@calculatedFrom( ""a\""b"") , } , }  packet Packet
-    { repeatCount
-tag, char[ 1
-] crc `{ , }` , @leftPad( )
-    zchar[ 0	]Logon
-    @calculatedFrom( """ ++ [233]%N ++ runes_of_ascii "t" ++ [233]%N ++ runes_of_ascii """ // c
-) ,
-    leftPad
-// `tick` ""quote"" 'q'
-// " ++ [128512]%N ++ runes_of_ascii " emoji
+Eval vm_compute in ("<<<M8>>>" ++ check (runes_of_ascii "MetaData string_{
+} packet
+    Packet
+// c
+// c
 {
-    //	t
-    repeat
-    uint32 stringy , string Foo	@calculatedFrom( ""it's"")`doc`, string  Foo @lengthOf(zchar /// triple
-)
-, } //x
-, i64 body,repeat string x_y_z , zchar[ //x
-007]Packet`doc`
-    ,@tag( 65535 ) char[
-    0 ] float  , } packet
-// " ++ [128512]%N ++ runes_of_ascii " emoji
-// `tick` ""quote"" 'q'
-i8i8 { repeat
-    falsey`two words`, }
-options{roots =
-    ""\" ++ [233]%N ++ runes_of_ascii """
-o = '\x00' ;u = char[ 7
-]
-    metadata = true // trailing space 
-float
-=""\n"" ; }")).
-Eval vm_compute in ("<<<M673>>>" ++ check (runes_of_ascii "options
-    {  asx= true ; matchKey
-= ' '// packet A { u8 x, }
-;
-    Z9_  =int8 BodyLength=
-char[]
-}MetaData
-    calculatedFrom {
-float32 tag,  char[]Header , float64 charz
-, falsey
-Z9_ ,
-string
-    A, char[
-    65535] leftPad, }
-    packet BodyLength { i16
-    Foo , @tag( 65535 ) @lengthOf( lengthOf )@tag( 007)
-x@calculatedFrom( ""packet""  )	`u8 x,` , Logon	@calculatedFrom( ""1"" )
-`two words`, }	MetaData options1 // packet A { u8 x, }
-{ }
-packet Packet { pack// a // b
-,repeat char[] o ,@lengthOf(
-    // c
-    uint8x ) string_ //
-@calculatedFrom(""a\""b""
-),
-    @tag(
-0 )
-u16 repeatCount `
-`  , string
-Packet
-    , @tag(
-0123456789 //
-)  match x
-as zchar
-    { 42: msg_type , [ 3 ,""{,}"" ] :
-// " ++ [27880; 37322]%N ++ runes_of_ascii "
-//
-u,//
-4294967296: repeatCount , [ ""a\\"" ,	""`tick`"" , ""// no comment"" ,
-//	t
-// a // b
-3 ,
-""""	,
-    // packet A { u8 x, }
-    ""a\\"" ] :
-    i64_	, ""`tick`""/// triple
-: zchar, [
-    ""// no comment"" ]	:MetaDataX } // packet A { u8 x, }
-,
-    Foo @lengthOf( A
-    ) , char[65535
-] Pad `it's` , match
-    matchKey
-as
-x { [""" ++ [128512]%N ++ runes_of_ascii """  ,
-""\" ++ [233]%N ++ runes_of_ascii """ ,
-0123456789,//
-""CRC32""// @lengthOf(
-,
-""`tick`""
-    ,	""a\""b"",
-""a	b"" ] :stringy
-, } ,
-// " ++ [128512]%N ++ runes_of_ascii " emoji
-//	t
-repeat uint16 Logon
-//
-/// triple
-, }
-")).
-Eval vm_compute in ("<<<M238>>>" ++ check (runes_of_ascii "
-packet
-    tag{repeat
-    stringy {	repeat
-i32 lengthOf
-, // trailing space 
-string msg_type // " ++ [27880; 37322]%N ++ runes_of_ascii "
-@calculatedFrom( // " ++ [128512]%N ++ runes_of_ascii " emoji
-""// no comment"" ) `" ++ [233]%N ++ runes_of_ascii "` ,
-    zchar
-    { x @calculatedFrom( """ ++ [28040; 24687]%N ++ runes_of_ascii """ )
-    ,repeat u8x len , zchar[ 255 ] i8i8 , } ,
-x @calculatedFrom( ""CRC32"")
-`` ,} , packetx
-//	t
-//	t
-u8x, @calculatedFrom( ""packet"" )
-zchar[  007] body
-@calculatedFrom( ""CRC32"" )
-    , @lengthOf( x_y_z/// triple
-) char[]
-int
-    `" ++ [28040; 24687; 31867; 22411]%N ++ runes_of_ascii "` , zchar[ 42 ]
-Logon@calculatedFrom( ""// no comment""
-    ) ,
-    int8
-f32a , }packet  As { @calculatedFrom(
-""it's""
-)  int64 msg_type	@calculatedFrom( ""a\""b"" )`it's`, i8i8 pack , tag {i64 _x ,match As as f32a { // trailing space 
-007 : _x ,0123456789 : metadata
-    , }
-, }, @lengthOf( body )repeat
-u8
-f32a
-    `` , char[] Pad `line1
-line2` ,
-    @lengthOf(msg_type)  string len , @lengthOf(	a1) @tag(00
-) @rightPad('\x00' ) char[ 65535 ] Header ,// trailing space 
-@calculatedFrom(
-    // a // b
-    ""1""
-) @calculatedFrom(
-""a\\""  )
     // @lengthOf(
-    @lengthOf( body
-//
-// " ++ [27880; 37322]%N ++ runes_of_ascii "
-)
-    i8
-x_y_z
-, }
-root packet a1 {
-    }
-    packet A{
-}
-    // " ++ [128512]%N ++ runes_of_ascii " emoji
-    packet calculatedFrom {}")).
-Eval vm_compute in ("<<<M3570>>>" ++ check (runes_of_ascii "
-packet i8i8 { options1
-
-    @calculatedFrom(
-
-    ""packet""
-// trailing space 
-  /// triple
-  )`crlf
-line`
-,@rightPad ( ' ' 	 //x
-)
-	string lengthOf  `" ++ [233]%N ++ runes_of_ascii "` 
-,
-
-    u64
-string_
-
-    ,  }
-
-options {
-options1=
-	false
-	;
-
-    } 
-MetaData
-
-    u {
-	a1	options1,lengthOf
-	// trailing space 
-    	//	t
-	x_y_z
-    `line1
-line2` , // c
-
-  MetaDataX
-
-rootA
-,
-zchar[ 255
-
-]
-
-len  ,
-
-    char[
-    007]int	//x
-
-`say ""hi""`, 
+    zchar[ 65535 ]	metadata  ,} MetaData  body { u
+    packetx ,
+char[] roots `" ++ [233]%N ++ runes_of_ascii "`,
+i32 Header , uint32
+    packetx /// triple
+,	} packet Foo  { @rightPad ()
+match crc
+    as u128{ // c
+""it's"":	As , 0
+    :x_y_z , """"
+:
+msg_type } // @lengthOf(
+, match pack
+as	x_y_z {255: msg_type , } , i8 A , int8 BodyLength
+@lengthOf( tag ) , @calculatedFrom( ""CRC32""
+) match int as Header {
+4294967296	: x_y_z ,
     // @lengthOf(
+    }	, match
+chars	as // a // b
+calculatedFrom {  [0 ,
+0
+, // c
+1 , 0123456789 , 00 // c
+, ""a\""b""	,// `tick` ""quote"" 'q'
+4294967296 ]:
+stringy
+    ,""`tick`"" : T }, @tag( 0 )@tag(
+    1 )
+@lengthOf(u8x ) u8x {  body
+    , repeat// trailing space 
+calculatedFrom x_y_z `two words` ,  } , match  falsey
+as leftPad {	007	:  A, [""" ++ [28040; 24687]%N ++ runes_of_ascii """ ] : tag ,
+1:
     //
-	  char[4294967296
-
-    ]// `tick` ""quote"" 'q'
-  stringy
-
-, 	 //	t
-    	}
-    root
-
-    packet
-u8x { Z9_ @lengthOf(
-Packet
-)
-
-    ,
-	@calculatedFrom(""packet"" ) // a // b
-    @rightPad
-	(
-'0'//
-) 
-@calculatedFrom(
-""it's""
-
-) 
-packetx
-`" ++ [28040; 24687; 31867; 22411]%N ++ runes_of_ascii "`,
+    Pad ,}
+    , // c
 float64
-    Packet @calculatedFrom( ""`tick`""
-    )
-
-`a\`, 
-@leftPad(
-
-    '0'
-
-)
-    match
-len
-
+repeatCount , @tag(10 ) match stringy
     as
-    rootA
-
-    { 
-    // `tick` ""quote"" 'q'
-	""x y"" : 
-uint8x ""1""
-
-:asx	,
-
-""a\""b"" 
-:u8x ,
-	}
-    , 	 // " ++ [27880; 37322]%N ++ runes_of_ascii "
-
-	@lengthOf(  tag
-
-    ) trueish 
-As,
-@lengthOf( falsey
-    )  zchar[ 
-1]
-a1
-
-    , }
-    root
-packet 
-body	{
-	}
-
-")).
-Eval vm_compute in ("<<<M354>>>" ++ check (runes_of_ascii "// a // b
-packet chars {
-    i64_ tag `say ""hi""` , }
-// " ++ [128512]%N ++ runes_of_ascii " emoji
+Logon {7:
+Pad, }	, }
+    packet Packet {
+@calculatedFrom( ""\n"" ) @calculatedFrom( ""`tick`"" ) matchKey
+, @lengthOf( zchar )
+roots	{repeat i16 Z9_, match
+    repeatCount as
+stringy { [ ""x y""
+    ]:packetx	, [""" ++ [128512]%N ++ runes_of_ascii """ , ""x y""	, ""\n"" ] : crc , },}
 // `tick` ""quote"" 'q'
-packet tag {
-}// c
-packet roots
-    { repeat //x
-x_y_z `
-`	, } packet lengthOf { // c
-i64 int`{ , }` , @lengthOf( trueish
-    ) @lengthOf( stringy // packet A { u8 x, }
-) // @lengthOf(
-repeat
-x repeatCount`u8 x,`,
-    char[]
-rootA ,uint16 int @calculatedFrom( // " ++ [128512]%N ++ runes_of_ascii " emoji
-""\" ++ [233]%N ++ runes_of_ascii """ ) `say ""hi""`/// triple
-,@lengthOf(
-string_
-    // a // b
-    )char[]
-    int @calculatedFrom(
-""a\\"" )  , @tag( 0 )@calculatedFrom(""\n""  )// " ++ [128512]%N ++ runes_of_ascii " emoji
-i32
-string_  @lengthOf(
-    falsey ) `say ""hi""` ,@tag(3
-) @lengthOf( BodyLength
-) repeat Z9_ {match// " ++ [27880; 37322]%N ++ runes_of_ascii "
-T // @lengthOf(
-as charz { // packet A { u8 x, }
-[ 255
-, ""a\""b"" ,
-    """" , 00
-    , 0123456789 ,""\n"" , ""\" ++ [233]%N ++ runes_of_ascii """//x
-]:
-x_y_z
-3 : Foo ,
-    // @lengthOf(
-    }
-    ,char[ 4294967296 ] calculatedFrom@lengthOf( Z9_ )	, } , i64
-    trueish
-    @lengthOf( /// triple
-T) `" ++ [233]%N ++ runes_of_ascii "` , @lengthOf( body
-)
-@lengthOf(
-matchKey // `tick` ""quote"" 'q'
-) tag trueish `` , } packet Foo {
-}")).
-Eval vm_compute in ("<<<M4287>>>" ++ check (runes_of_ascii "
-// @lengthOf(
-
-MetaData
-
-uint8x  { 
-char[
-42] 
-packetx  , }
-	packet
-    len
-
-    {
-}
-	MetaData Logon { 
-matchKey 
-u128
-
-    `
-`
-    , string
-	MetaDataX	`" ++ [233]%N ++ runes_of_ascii "`
-,
-
-    }MetaData
-
-    //
-    	//	t
-
-rootA
-{u32
-	i8i8
-
-,
-
-}
-root
-packet i64_ // `tick` ""quote"" 'q'
-    	{
-
-u32 calculatedFrom
-
-    // trailing space 
-/// triple
-	,
-
-@tag(
-    10	)  @rightPad  () @leftPad
-
-(
-' ')	uint16
-// c
-	// " ++ [128512]%N ++ runes_of_ascii " emoji
-rootA , @lengthOf(
-    //x
-Pad
-	)
-	pack
-@calculatedFrom(
-""x y""
-
-    ) `it's`, uint8
-matchKey 
-,@tag(
-1	// " ++ [128512]%N ++ runes_of_ascii " emoji
-	  )match Pad
-
-as 
-calculatedFrom  {	[
-    ""\n""
-
-,
-
-    7
-	,	1
-, """ ++ [233]%N ++ runes_of_ascii "t" ++ [233]%N ++ runes_of_ascii """
-	]
-	: len
-
-    00:
-Packet
-
-    ,
-}
-
-    ,
-
-    @lengthOf(	string_  
-  // @lengthOf(
-    )
-
-match	matchKey
-as MetaDataX
-{ [ ""`tick`""
-    , 42  ,
-    ""x y""
-
-    ,
-    """ ++ [233]%N ++ runes_of_ascii "t" ++ [233]%N ++ runes_of_ascii """ ,
-
-4294967296]	:	o // packet A { u8 x, }
-
-  , }
-
-    ,uint8	charz
-
-@calculatedFrom(""a	b""
-    ),@calculatedFrom(""a\""b""	) repeat
-
-u8x
-{	pack  ,
-
-    }
-    , } ")).
-Eval vm_compute in ("<<<M1096>>>" ++ check (runes_of_ascii "
-MetaData T { char[
-    007] x	`// not a comment` , u8 x_y_z
-`// not a comment`
-//	t
-// trailing space 
-, As body // " ++ [27880; 37322]%N ++ runes_of_ascii "
-, T chars `tab	here`
-    , }	root packet
-len { A  , @calculatedFrom(""" ++ [128512]%N ++ runes_of_ascii """ )
-crc ,x_y_z {falsey { Foo {x@lengthOf(
-MetaDataX)`u8 x,` , u64 As
-    `// not a comment`	,} , u32 //x
-lengthOf `two words` , char[ 42 ]
-x_y_z
-    // `tick` ""quote"" 'q'
-    @lengthOf(Z9_ )
-,} ,uint64 asx `it's` , pack	packetx ,
-}
-    , @rightPad	( ) match
-    Foo
-    as Packet
-{3:
-float
-// a // b
-// " ++ [27880; 37322]%N ++ runes_of_ascii "
-, ""x y""  : chars
-, [ 7 ] :	trueish	,
-    ""`tick`""
-:
-    x ,
-    ""\" ++ [233]%N ++ runes_of_ascii """ : Pad ""// no comment"" : MetaDataX , } , x repeatCount
-    //
-    `" ++ [28040; 24687; 31867; 22411]%N ++ runes_of_ascii "` , repeat char[
-7
-] falsey ,
-    @lengthOf(int ) @calculatedFrom(
-    //
-    """"
-    /// triple
-    ) @tag( 255
-)match
-u as chars{ 0: Pad 0 : charz,
-    ""a\""b"" :	matchKey
-    , 42 /// triple
-: x}
-, @calculatedFrom(
-""abc""	) repeat
-int64
-len  , }")).
-Eval vm_compute in ("<<<M4066>>>" ++ check (runes_of_ascii "options{ LittleEndian
-=
-true; StringPrefixLenType
-
-=u64; 
-ArrayPrefixLenType
-    = u8 
-;FixedStringPadChar
-= '0'
-;
-}
-	packet
-    Reject 
-{ 
-i32
-    Ref
-    ,
-	repeat
-
-f64	OrderId, repeat
-	InNote12
-	{
-
-u8
-
-    pad0,  }
-
-, @leftPad
-(
-
-    ' ' 
-)char[ 6
-    ] 
-count	,  }  packet
-    Logout	{	zchar[ 6
-	]	Tail  ,
-	repeat
-string
-
-venue
-	,
-	}
-packet
-	Cancel 
-{
-
-u64	count ,
-
-repeat  char[
-    5
-
-]
-lastPx
-,
-    i64
-
-Tail
-,
-repeat InF140 {
-	repeat
-Logout
-,  repeat
-Reject
-    ,
-	}
-    ,
-    } root
-packet
-Trade	{
-repeat
-
-    InMsgkind39 { repeat
-
-Reject,
-
-    char[  4 
-]
-	Px  , }
-	,
-string
-    Acct,
-	uint16 price	, 
-f32 
-OrderId,u16 x,
-    u16
-clOrdID
-	@lengthOf(
-Body 
-) 
-,
-    match
-    x
-as 
-Body { 178 :Logout
-	, 
-13 :	Cancel ,
-
-    174
-
-:
-    Reject
-,
-	}
-	,
-
-    u16
-
-    Flags
-	@calculatedFrom( ""CR\
-C32""  )  ,
-}
-")).
-Eval vm_compute in ("<<<M679>>>" ++ check (runes_of_ascii "root packet
-body { @tag( 255) chars calculatedFrom ,
-    //	t
-    @rightPad ( '0' )
-    @calculatedFrom(
-    ""a	b"" // " ++ [128512]%N ++ runes_of_ascii " emoji
-) @rightPad ( )
-stringy @calculatedFrom( ""it's""  )// " ++ [128512]%N ++ runes_of_ascii " emoji
-, repeat string trueish /// triple
-,  @calculatedFrom(
-    // `tick` ""quote"" 'q'
-    """"
-    ) asx
-@lengthOf(	options1 ) `doc`  , u32 Logon ,float64// packet A { u8 x, }
-i64_
-    @lengthOf( metadata ) , @calculatedFrom( ""`tick`"") chars @lengthOf(len ) `line1
-line2`
-,f32a
-    /// triple
-    {match trueish
-as roots{ ""1"" :
-    body""// no comment"" : Packet,[ 42 , ""it's"" ,
-    0, // " ++ [128512]%N ++ runes_of_ascii " emoji
-""it's"" ] : charz,""a\""b"" : stringy,
-// a // b
 //x
-}
-    , } ,
-uint8x { zchar[ 10 ]
-    As ,}// trailing space 
-, @tag( 0123456789) @rightPad (
-    '0' ) @calculatedFrom("""") asx@lengthOf(	trueish ) ,} root
-packet trueish{ }
-")).
-Eval vm_compute in ("<<<M1239>>>" ++ check (runes_of_ascii "
-MetaData
-    //	t
-    zchar { BodyLength rootA , //x
-u8x Z9_
-, zchar[
-    10 ] string_ , char[4294967296]i8i8 ,
-    } root packet
-    u{chars
-    , packetx @calculatedFrom(""" ++ [128512]%N ++ runes_of_ascii """ ) /// triple
-, f32	trueish // packet A { u8 x, }
-`` ,  uint8	Z9_
-    @calculatedFrom(
-    ""abc"" ) `line1
-line2`
-    , repeat MetaDataX { float64 crc`// not a comment` ,zchar[
-    0 ]Z9_ ,
-zchar[
-10 ] string_ ``
-, match
-    pack as
-    a1
-{ //	t
-""a	b""
-: falsey
-// " ++ [128512]%N ++ runes_of_ascii " emoji
-// " ++ [27880; 37322]%N ++ runes_of_ascii "
-, } ,
-// @lengthOf(
-// `tick` ""quote"" 'q'
-} , // " ++ [128512]%N ++ runes_of_ascii " emoji
-repeat
-char
-    As// `tick` ""quote"" 'q'
-, /// triple
-repeat// c
-Z9_// packet A { u8 x, }
-{ string Packet	@calculatedFrom(
-""packet"")
-    , } ,@calculatedFrom( //	t
-""`tick`""
-    ) repeat	i64 f32a `u8 x,` ,  matchKey@lengthOf(BodyLength)`line1
-line2`//x
-,}")).
-Eval vm_compute in ("<<<M3521>>>" ++ check (runes_of_ascii "options {
-    LittleEndian = false;
-    StringPrefixLenType = u16;
-    ArrayPrefixLenType = u32;
-}
-packet Order {
-    uint8 x,
-    repeat string venue,
-}
-packet Heartbeat {
-    i64 count,
-    zchar[1] Qty,
-    repeat InX29 {
-        InSeqno26 {
-            int64 f1,
-            char[5] Acct,
-            Order,
-        },
-        repeat InSide285 {
-            repeat Order,
-            char[10] Px,
-            zchar[9] OrderId,
-        },
-        char[] venue,
-        Order,
-    },
-    @rightPad('\x00') char[4] clOrdID,
-}
-root packet Party {
-    zchar[3] f1,
-    u32 clOrdID,
-    u32 Px @lengthOf(Body),
-    match clOrdID as Body {
-        [180, 64] : Heartbeat,
-        11 : Order,
-    },
-    u32 Side2 @calculatedFrom(""CRC32""),
-}
-")).
-Eval vm_compute in ("<<<M3952>>>" ++ check (runes_of_ascii "options { 
-LittleEndian
-	=
-false; 
-StringPrefixLenType 
-= u16  ;
-ArrayPrefixLenType	= u32	;	}
-
-packet
-	Order { uint8 x  , repeat string
-    venue
-
-,
-	}
-packet Heartbeat
-{ i64
-count ,
-    zchar[
-1 ]Qty
-
-    ,
-	repeat
-InX29 { InSeqno26
-{	int64
-
-f1
-, char[	5]  Acct
-,Order  , }	,	repeat
-
-    InSide285 {repeat
-
-    Order
-
-, 
-char[
-	10]
-
-    Px
-,
-
-zchar[
-    9 ]
-OrderId , 
-},
-
-    char[] venue, Order
-,}	,
-@rightPad
-
-(
-	'\x00' )char[  4 ] clOrdID
-	, } root packet
-    Party	{ zchar[ 3 
-]
-	f1 
-, 
-u32
-
-clOrdID 
-,u32
-    Px
-	@lengthOf(
-    Body )  ,
-
-match
-clOrdID
-	as
-	Body
-    {
-[  180	,	64 ]
-	:	Heartbeat
-
-,
-	11
-	:Order , }
-
-    ,
-u32 Side2 
-@calculatedFrom( ""CRC32""
-    )	,  }
-")).
-Eval vm_compute in ("<<<M1236>>>" ++ check (runes_of_ascii "MetaData
-o { u128 a1 , _x	trueish `it's`
-,	zchar[
-42]
-    repeatCount,char[] T ,
-    float32 charz ,u16  falsey
-    , }	packet
-    Logon{
-}packet Header
-{ }	root packet
-rootA
-    //
-    {@calculatedFrom( ""{,}""
-)match Logon
-as x
-    //x
-    { 007 /// triple
-:Packet, } ,
-    } root
-packet msg_type { @tag( 42
-) char[] crc , @rightPad( //	t
-) trueish `tab	here`
-,len , As @calculatedFrom(
-""x y"" //
-)
-, @calculatedFrom(
-    //
-    ""`tick`"")
-// `tick` ""quote"" 'q'
-//	t
-@calculatedFrom(	""""
-// packet A { u8 x, }
-//	t
-)@calculatedFrom( ""x y"" )match Packet as
-    /// triple
-    BodyLength{	""\n""
-: u
-    ,
-} ,@calculatedFrom(  """"  ) repeat Logon `// not a comment` , }")).
-Eval vm_compute in ("<<<M4294>>>" ++ check (runes_of_ascii "packet Logon {
-    repeat char MetaDataX `say ""hi""`,
-    @lengthOf(packetx)
-    char[] repeatCount `doc`,
-    @leftPad('0')
-    @tag(7)
-    Header @calculatedFrom(""""),
-    @lengthOf(MetaDataX)
-    match x as Header {
-        ""x y"" : u8x,
-        """ ++ [128512]%N ++ runes_of_ascii """ : charz,
-        """ ++ [233]%N ++ runes_of_ascii "t" ++ [233]%N ++ runes_of_ascii """ : _x,
-        [3, 00] : uint8x,
-        ""it's"" : rootA,
-        [00, 65535] : zchar,
-    },
-    @calculatedFrom(""// no comment"")
-    int32 i64_,
-    repeat body {
-        zchar[10] BodyLength `line1
-        line2`,
-        lengthOf Logon,// @lengthOf(
-        repeat float64 i8i8,
-        char[0123456789] leftPad `
-        `,
-    },
-    repeat char[255] a1 `" ++ [28040; 24687; 31867; 22411]%N ++ runes_of_ascii "`,
-}")).
-Eval vm_compute in ("<<<M4264>>>" ++ check (runes_of_ascii "options {
-    LittleEndian = true;
-    FixedStringPadFromLeft = true;
-    FixedStringPadChar = '0';
-}
-
-packet Trade {
-    string clOrdID,
-    char[] Px,
-    u32 x,
-}
-
-packet Reject {
-    int32 Side2,
-    repeat char[3] clOrdID,
-    i32 tag7,
-}
-
-packet Leg {
-}
-
-root packet Quote {
-    string Side2,
-    string lastPx,
-    InSym58 {
-        int16 OrderId,
-        Reject,
-        i8 Qty,
-        i64 venue,
-        f32 Note,
-    },
-    char[] count,
-    zchar[9] price,
-    u16 Qty,
-    match Qty as Body {
-        69 : Leg,
-        48 : Trade,
-        51 : Reject,
-    },
-    u16 Acct @calculatedFrom(""CRC32""),
-}")).
-Eval vm_compute in ("<<<M4508>>>" ++ check (runes_of_ascii "  packet	BodyLength
-	{ 
-repeat	string As	`{ , }`
-
-,@tag(
-
-4294967296  )
-
-    match
-	Pad
-    as
-
-lengthOf
-    { //	t
-	007 : // `tick` ""quote"" 'q'
-
-	i8i8/// triple
-
-, 
-""a\""b""  ://x
-      msg_type ,
-} ,repeat 
-uint32
-
-Z9_ 
-,
-    @tag(
-    00)	// `tick` ""quote"" 'q'
-charz
-    , string 
-	// trailing space 
-  	i8i8	// packet A { u8 x, }
-		@lengthOf( BodyLength)	,
-@calculatedFrom(
-
-""{,}"" )
-    // a // b
-    @leftPad 	 // " ++ [27880; 37322]%N ++ runes_of_ascii "
-    	( 
-)
-leftPad
-
-metadata
-
-,
-
-    //
+, // packet A { u8 x, }
+match // trailing space 
+tag as
+a1 // " ++ [128512]%N ++ runes_of_ascii " emoji
+{ ""abc"": packetx 1
+: u8x 1 : body
+007 : leftPad
+0123456789
+    :Header} ,
+i16 x_y_z
+    ,@calculatedFrom( ""{,}""
+    )o `it's` , string_@calculatedFrom( ""it's"" ) `crlf
+line` , match i8i8 as lengthOf
+    { [ 1 , ""a\\"" ,
+    42 ,""""  ,
+""a\\"" ]
     // " ++ [128512]%N ++ runes_of_ascii " emoji
-string i8i8
-
-    ``, uint64 trueish
-@calculatedFrom(""1"" 
-/// triple
-
-// " ++ [27880; 37322]%N ++ runes_of_ascii "
+    : o , 10
+    :
+Foo //x
+[7 ]:// trailing space 
+lengthOf , } ,repeat
+    A { repeat T { char[
+    007
+    //x
+    ] i64_ @lengthOf( Packet
+    // a // b
+    ) ,
+    match T as repeatCount // " ++ [27880; 37322]%N ++ runes_of_ascii "
+{  ""x y"" :
+As
+,
+    } , repeat metadata, msg_type
+{
+float64//
+float , i8 o`u8 x,` // " ++ [27880; 37322]%N ++ runes_of_ascii "
+,char[
+0 ]	A @calculatedFrom(
+""1""
     )
-	`
-`
-,}
-")).
-Eval vm_compute in ("<<<M1099>>>" ++ check (runes_of_ascii "packet
-    trueish {
-    repeat
-chars
-    ``
-,
-match
-    // trailing space 
-    u128
-as leftPad { """ ++ [233]%N ++ runes_of_ascii "t" ++ [233]%N ++ runes_of_ascii """ : msg_type , } ,	string metadata ,zchar[ 10 ] pack `a\`,u8x {match u128
-as
-    Pad
-{
-    [ ""\n"" , 0 ] : len }
-    // @lengthOf(
-    , // trailing space 
-char[] Logon	@lengthOf(  Foo ) ,	uint64 metadata ,}
-,
-    u16 repeatCount
-@lengthOf( T
-    // trailing space 
-    ) , @lengthOf(u128 )T
-    @lengthOf(
-    f32a ),int8// `tick` ""quote"" 'q'
-i64_ `" ++ [233]%N ++ runes_of_ascii "`, @lengthOf(uint8x ) uint8 charz @calculatedFrom( """"	) , rootA
-    tag
-    ,
-}
-")).
-Eval vm_compute in ("<<<M3499>>>" ++ check (runes_of_ascii "// top
-root // c0
-packet Frame
-    // c2
-{ // c3a
-  // c3b
-u8
-    // c4
-K // c5
-, // c6a
-  // c6b
-Logon // c7
-first
-    // c8
-,
-    // c9
-match // c10a
-  // c10b
-K as
-    // c12
-Body { // c14
-1 : Logon
-    // c17
-, // c18
-2 : Logout ,
-    // c22
-} , // c24
-} packet // c26
-Logon // c27a
-  // c27b
-{ // c28a
-  // c28b
-string // c29a
-  // c29b
-user
-    // c30
-, // c31a
-  // c31b
-} // c32a
-  // c32b
-packet // c33
-Logout
-    // c34
-{ // c35a
-  // c35b
-u16 // c36a
-  // c36b
-reason ,
-    // c38
-}
-    // c39
-")).
-Eval vm_compute in ("<<<M1087>>>" ++ check (runes_of_ascii "packet x { repeat
-float32 Foo `{ , }` ,
-    float64 i8i8	,@lengthOf(chars
-    // @lengthOf(
-    ) @tag( 65535)
-    // @lengthOf(
-    string_ , @leftPad( '0' ) repeat A charz ,
-    } root packet
-    Header{ @calculatedFrom(""// no comment""
-    ) repeat metadata
-    { repeat u64 o// c
-,T
-    `` //	t
-,	},  } MetaData A {
-    zchar[ // a // b
-4294967296 ] asx ,int8 pack  , char[
-    //
-    65535 ]  Packet, uint8 lengthOf `" ++ [28040; 24687; 31867; 22411]%N ++ runes_of_ascii "`
-    ,
-char[ 10 // @lengthOf(
-] i64_  `" ++ [233]%N ++ runes_of_ascii "`
-    ,
-    }")).
-Eval vm_compute in ("<<<M379>>>" ++ check (runes_of_ascii "
-root
-packet
-falsey	{ @tag( 0123456789
-    ) @tag( 3 )
-Pad { rootA ,
-//x
-// a // b
-x { repeat int {
-// " ++ [128512]%N ++ runes_of_ascii " emoji
-// @lengthOf(
-match f32a as crc
-{
-[ """ ++ [128512]%N ++ runes_of_ascii """ ,""packet""] : metadata ,//	t
-[ 42,  ""abc"" , 00
-    ,""a\\""
-]
-    // a // b
-    ://x
-metadata ,
-[""a\""b""
-] : Header , ""\n""
-: asx } , } ,
-    x_y_z @calculatedFrom(""1""// " ++ [128512]%N ++ runes_of_ascii " emoji
-),
-zchar[ 42
-    ]
-    string_ `` // packet A { u8 x, }
-,	matchKey	pack ,} ,
-}
-, @lengthOf( Logon )
-@leftPad
-    ('\x00' )
-As u8x , }")).
-Eval vm_compute in ("<<<M636>>>" ++ check (runes_of_ascii "options { }// " ++ [27880; 37322]%N ++ runes_of_ascii "
-root
-    packet leftPad {match T as u8x{ // trailing space 
-4294967296
-// packet A { u8 x, }
-//x
-: Logon, ""1"" :i8i8 ,
-0123456789 : tag, ""a\""b"" // @lengthOf(
-: //x
-options1 , 4294967296  : T
-    }
-    , repeat matchKey {
-repeat string rootA ,  repeat
-    // @lengthOf(
-    int64
-    zchar `
-` , } , i32 x_y_z ,
-zchar[ 007 ] packetx `it's`,
-// a // b
-// `tick` ""quote"" 'q'
-repeat
-    // " ++ [128512]%N ++ runes_of_ascii " emoji
-    zchar[	255 ] falsey , } // " ++ [27880; 37322]%N)).
-Eval vm_compute in ("<<<M455>>>" ++ check (runes_of_ascii "root packet
-// " ++ [27880; 37322]%N ++ runes_of_ascii "
-// c
-Pad { @leftPad ( '\x00') @leftPad ( ' ' )
-    calculatedFrom
-    // packet A { u8 x, }
-    rootA `it's` , T`line1
-line2` ,
-    match pack as  int{
-    //
-    0: x_y_z [""1"", 0 ,10
-// c
-//
-,
-""" ++ [128512]%N ++ runes_of_ascii """
-,
-    65535 ,""CRC32"" ,
-7] : string_ , [ 255  , ""abc""	, ""CRC32"", ""abc""
-    ]: i8i8 10 :
-Z9_
-    , // " ++ [128512]%N ++ runes_of_ascii " emoji
-}
-    ,
-    } options { }	MetaData T { //x
-u uint8x,string_ _x , uint16 body`doc`
-, uint32 tag `a\` , }")).
-Eval vm_compute in ("<<<M4130>>>" ++ check (runes_of_ascii "  options	{  charz=char[	0123456789 
-] zchar  =
-float32
-	;
-    }
-packet
-As {
-
-x_y_z
-	crc
-
-    `{ , }` 
-, 
-}root
-packet
-body	{ @lengthOf(
-
-    Logon )
-
-    Header
-
-    repeatCount	`it's`
-,
-char[	/// triple
-	255] 
-u128  @lengthOf(
-uint8x 
-        // " ++ [128512]%N ++ runes_of_ascii " emoji
-      // a // b
-  )  ,
-    // a // b
-repeat
-
-    repeatCount`doc` //x
-, @lengthOf(packetx
-
-    )  Z9_
-	x_y_z 
-    // " ++ [27880; 37322]%N ++ runes_of_ascii "
-    `" ++ [28040; 24687; 31867; 22411]%N ++ runes_of_ascii "`
-	,	}
-")).
-Eval vm_compute in ("<<<M4386>>>" ++ check (runes_of_ascii "root packet i64_ {
-    @leftPad('\x00')
-    match roots as A {
-        [""\n"", 10, 00] : asx,
-    },
-    zchar[1] body @calculatedFrom(""abc"") `line1
-        line2`,
-    int8 Z9_,
-    u {
-        falsey zchar,
-        repeat uint16 a1,
-    },
-    repeat uint16 i64_ `crlf
-        line`,
-    pack `crlf
-        line`,
-    roots,
-    match u128 as o {
-        00 : Header,
-    },
-    repeat u A,
-}")).
-Eval vm_compute in ("<<<M1325>>>" ++ check (runes_of_ascii "
-MetaData
-MetaDataX { zchar[//
-42 ] charz`` ,Packet
-    stringy	`two words` , u32 // a // b
-uint8x
-    // packet A { u8 x, }
-    ,int chars`
-` ,	f32 metadata ,
-    char[]
-    string_
-    ,} packet roots
-{ char[
-    7
-    ]
-    leftPad
-    ,	@tag( 1 )uint8x@calculatedFrom( ""`tick`"" ) ,@lengthOf(x )lengthOf { repeat
-    // " ++ [27880; 37322]%N ++ runes_of_ascii "
-    uint8x  u, char
-zchar , zchar[ 10
-] tag
+    `two words` //	t
+, i8 body
+    @lengthOf( Packet), } ,//
+} ,rootA{
+f32a
+@lengthOf( pack
+    ), }, repeat char[] u , }
 , }
-,}")).
-Eval vm_compute in ("<<<M580>>>" ++ check (runes_of_ascii "packet // `tick` ""quote"" 'q'
-i8i8	{ } packet
-    //	t
-    i64_// packet A { u8 x, }
-{repeat int8 crc `
-`
-    // a // b
-    , // a // b
-As,
-    }
-MetaData
-    roots { roots roots `" ++ [233]%N ++ runes_of_ascii "` ,
-    }  packet tag
-    { @calculatedFrom( """ ++ [233]%N ++ runes_of_ascii "t" ++ [233]%N ++ runes_of_ascii """  ) @lengthOf( Packet
-) repeat float64
-asx`two words`
-,  BodyLength
-@calculatedFrom(
-// packet A { u8 x, }
-// c
-""a	b""	), }
-// c
 ")).
-Eval vm_compute in ("<<<M668>>>" ++ check (runes_of_ascii "root packet options1 { repeat
-    Packet { match // `tick` ""quote"" 'q'
-u8x as  metadata { ""packet"" : packetx
-,
-[
-""// no comment"" ,
-    // packet A { u8 x, }
-    ""a\\"" ]
-    : uint8x 1 // c
-: Foo , 0123456789 :	falsey
-, ""abc"":
-    x_y_z
-    , },}
-,
-    @rightPad (// a // b
-' ' )
-    f32a crc , @tag( 3 ) repeat char[0 ] pack // c
-`say ""hi""`, }
-")).
-Eval vm_compute in ("<<<M457>>>" ++ check (runes_of_ascii "root packet float  { char[]
-    metadata`two words` ,match u128 as leftPad // packet A { u8 x, }
-{""packet"" // c
-: f32a , }
-    , i64 MetaDataX @lengthOf(options1
-) ,
-    zchar[ 00 ]
-// @lengthOf(
-//
-Logon , @lengthOf( falsey) char[00] i64_ ,
-    @lengthOf( Pad ) u32
-Pad	`tab	here`
-, uint8 metadata
-    ,// packet A { u8 x, }
+Eval vm_compute in ("<<<M379>>>" ++ check (runes_of_ascii "options {
+	StringPrefixLenType = u16;
+	ArrayPrefixLenType = u16;
 }
-")).
-Eval vm_compute in ("<<<M593>>>" ++ check (runes_of_ascii "
-options {trueish
-    = uint64 lengthOf
-    = u32; matchKey
-    =
-""""
-// trailing space 
+
+packet SampleBinary {
+    uint16 MsgType `" ++ [28040; 24687; 31867; 22411]%N ++ runes_of_ascii "`,
+    u16 BodyLenght @lengthOf(Body) `" ++ [28040; 24687; 20307; 38271; 24230]%N ++ runes_of_ascii "`,
+    match MsgType as Body {
+        1 : Logon,
+        2 : Logout,
+        3 : Heartbeat,
+        4 : RiskControlRequest,
+        5 : RiskControlResponse,
+    },
+        @calculatedFrom(""CRC32"")
+    u32 Ckecksum `" ++ [26657; 39564; 21644]%N ++ runes_of_ascii "`,
+}
+
+packet Logon {
+     @leftPad('0')
+    char[10] UserName `" ++ [29992; 25143; 21517]%N ++ runes_of_ascii "`,
+    string Password `" ++ [23494; 30721]%N ++ runes_of_ascii "`,
+    uint64 ClientId `" ++ [23458; 25143; 31471]%N ++ runes_of_ascii "ID`,
+    u16 HeartbeatInterval `" ++ [24515; 36339; 38388; 38548]%N ++ runes_of_ascii "`,
+}
+
+packet Logout {
+      @rightPad('0')
+    char[10] UserName `" ++ [29992; 25143; 21517]%N ++ runes_of_ascii "`,
+    uint64 ClientId `" ++ [23458; 25143; 31471]%N ++ runes_of_ascii "ID`,
+}
+
+packet Heartbeat {
+}
+
+packet RiskControlRequest {
+    string UniqueOrderId `" ++ [21807; 19968; 35746; 21333; 21495]%N ++ runes_of_ascii "`,
+    char[16] ClOrdID `" ++ [23458; 25143; 35746; 21333; 21495]%N ++ runes_of_ascii "`,
+    char[3] MarketID `" ++ [24066; 22330]%N ++ runes_of_ascii "id`,
+    char[12] SecurityID `" ++ [35777; 21048; 20195; 30721]%N ++ runes_of_ascii "`,
+    char Side `" ++ [20080; 21334; 26041; 21521]%N ++ runes_of_ascii "`,
+    char OrderType `" ++ [35746; 21333; 31867; 22411]%N ++ runes_of_ascii "`,
+    u64 Price `" ++ [20215; 26684]%N ++ runes_of_ascii "`,
+    u32 Qty `" ++ [25968; 37327]%N ++ runes_of_ascii "`,
+    repeat string ExtraInfo `" ++ [38468; 21152; 20449; 24687]%N ++ runes_of_ascii "`,
+    repeat SubOrder {
+    		char[16] ClOrdID `" ++ [23376; 35746; 21333; 21495]%N ++ runes_of_ascii "`,
+    		u64 Price `" ++ [23376; 35746; 21333; 20215; 26684]%N ++ runes_of_ascii "`,
+    		u32 Qty `" ++ [23376; 35746; 21333; 25968; 37327]%N ++ runes_of_ascii "`,
+    	},
+}
+
+packet RiskControlResponse {
+    string UniqueOrderId `" ++ [21807; 19968; 35746; 21333; 21495]%N ++ runes_of_ascii "`,
+    i32 Status `" ++ [29366; 24577]%N ++ runes_of_ascii "`,
+    string Msg `" ++ [32467; 26524; 20449; 24687]%N ++ runes_of_ascii "`,
+    repeat Detail,
+}
+
+packet Detail {
+    string RuleName `" ++ [35268; 21017; 21517; 31216]%N ++ runes_of_ascii "`,
+    u16 Code `" ++ [21407; 22240; 20195; 30721]%N ++ runes_of_ascii "`,
+}")).
+Eval vm_compute in ("<<<M110>>>" ++ check (runes_of_ascii "//	t
+packet// `tick` ""quote"" 'q'
+crc {@tag( /// triple
+10
+) uint16/// triple
+matchKey @calculatedFrom( ""\" ++ [233]%N ++ runes_of_ascii """ ) , @calculatedFrom(
+""x y"" )
+u16
+    // a // b
+    Packet  @calculatedFrom(""" ++ [233]%N ++ runes_of_ascii "t" ++ [233]%N ++ runes_of_ascii """) ,string Pad
+    // @lengthOf(
+    @lengthOf(  roots) ,//x
+@tag( 42 ) repeat float{
+    match
+    // @lengthOf(
+    roots
 //	t
-; } options
-    { Packet = string charz=uint16 MetaDataX = ""abc"" }
-    root packet tag { options1 // " ++ [27880; 37322]%N ++ runes_of_ascii "
-i8i8 //
-, @calculatedFrom(	""" ++ [28040; 24687]%N ++ runes_of_ascii """
-)
-match falsey as BodyLength {
-10  : u8x , }, Z9_ len , msg_type `// not a comment` ,
-}
-")).
-Eval vm_compute in ("<<<M1467>>>" ++ check (runes_of_ascii "root packet Foo // " ++ [128512]%N ++ runes_of_ascii " emoji
-{ } options {
-    // a // b
-    tag // `tick` ""quote"" 'q'
-= //	t
-""""
-    ; @calculatedFrom( = zchar[0  ] }
-MetaData
-    int {zchar[ 10]
-lengthOf	`` , i64 u8x`// not a comment` ,MetaDataX pack// `tick` ""quote"" 'q'
-`crlf
-line`
-, Logon charz `crlf
-line`
+//
+as Z9_
+    { 42: packetx // c
+, } // a // b
+, Pad { pack , uint32 u, repeat Z9_ {
+    packetx
+float ,
+    } , uint64 msg_type
+    `it's` ,
+} ,Header`" ++ [233]%N ++ runes_of_ascii "`
+    , //	t
+char[]stringy ,}	, match // packet A { u8 x, }
+u as a1 //	t
+{ [ 7
+]// " ++ [27880; 37322]%N ++ runes_of_ascii "
+:	zchar
+    ,[255,""a\""b"",  0123456789 , 4294967296
     ,
-    // a // b
-    }
-")).
-Eval vm_compute in ("<<<M1411>>>" ++ check (runes_of_ascii "root root packet Foo // " ++ [128512]%N ++ runes_of_ascii " emoji
-{ } options {
-    // a // b
-    tag // `tick` ""quote"" 'q'
-= //	t
-""""
-    ; u8x = zchar[0  ] }
-MetaData
-    int {zchar[ 10]
-lengthOf	`` , i64 u8x`// not a comment` ,MetaDataX pack// `tick` ""quote"" 'q'
-`crlf
-line`
-, Logon charz `crlf
-line`
-    ,
-    // a // b
-    }
-")).
-Eval vm_compute in ("<<<M627>>>" ++ check (runes_of_ascii "packet Foo {asx {falsey
-    ,  }
-, @calculatedFrom(
-// " ++ [128512]%N ++ runes_of_ascii " emoji
-/// triple
-""CRC32"" ) repeat char[ 007 ] rootA ,
-A , repeat// packet A { u8 x, }
-i8i8 pack
-`two words`
-// c
-// a // b
+1
 ,
-} options {
-    }packet uint8x // @lengthOf(
-{ string Foo
-@lengthOf( u
-    ) `u8 x,`  ,  i32 BodyLength ,
+    42, 0 ]
+:Foo
+    [  ""{,}"" ] : a1 , ""// no comment""
+    :
+A ,0
+    : u8x, 255 : Packet
+}	, repeat i64 chars ,
+repeat char[ 0123456789 ]repeatCount
+,
+body  Foo, @calculatedFrom(
+""\n""
+    )char[]
+int
+    @lengthOf(	len
+    )  , @tag( 3) char[]
+A
+`doc`
+    ,
 }
-
-")).
-Eval vm_compute in ("<<<M1521>>>" ++ check (runes_of_ascii "root packet Foo // " ++ [128512]%N ++ runes_of_ascii " emoji
-{ } options {
-    // a // b
-    tag // `tick` ""quote"" 'q'
-= //	t
-""""
-    ; u8x = zchar[0  ] }
-MetaData
-    int {zchar[ 10 lengthOf
-]	`` , i64 u8x`// not a comment` ,MetaDataX pack// `tick` ""quote"" 'q'
-`crlf
-line`
-, Logon charz `crlf
-line`
-    ,
-    // a // b
-    }
-")).
-Eval vm_compute in ("<<<M1531>>>" ++ check (runes_of_ascii "root packet Foo // " ++ [128512]%N ++ runes_of_ascii " emoji
-{ } options {
-    // a // b
-    tag // `tick` ""quote"" 'q'
-= //	t
-""""
-    ; u8x = zchar[0  ] }
-MetaData
-    int {zchar[ 10]
-lengthOf	, `` i64 u8x`// not a comment` ,MetaDataX pack// `tick` ""quote"" 'q'
-`crlf
-line`
-, Logon charz `crlf
-line`
-    ,
-    // a // b
-    }
-")).
-Eval vm_compute in ("<<<M1532>>>" ++ check (runes_of_ascii "root packet Foo // " ++ [128512]%N ++ runes_of_ascii " emoji
-{ } options {
-    // a // b
-    tag // `tick` ""quote"" 'q'
-= //	t
-""""
-    ; u8x = zchar[0  ] }
-MetaData
-    int {zchar[ 10]
-lengthOf	} , i64 u8x`// not a comment` ,MetaDataX pack// `tick` ""quote"" 'q'
-`crlf
-line`
-, Logon charz `crlf
-line`
-    ,
-    // a // b
-    }
-")).
-Eval vm_compute in ("<<<M1527>>>" ++ check (runes_of_ascii "root packet Foo // " ++ [128512]%N ++ runes_of_ascii " emoji
-{ } options {
-    // a // b
-    tag // `tick` ""quote"" 'q'
-= //	t
-""""
-    ; u8x = zchar[0  ] }
-MetaData
-    int {zchar[ 10]
-int8	`` , i64 u8x`// not a comment` ,MetaDataX pack// `tick` ""quote"" 'q'
-`crlf
-line`
-, Logon charz `crlf
-line`
-    ,
-    // a // b
-    }
-")).
-Eval vm_compute in ("<<<M1552>>>" ++ check (runes_of_ascii "root packet Foo // " ++ [128512]%N ++ runes_of_ascii " emoji
-{ } options {
-    // a // b
-    tag // `tick` ""quote"" 'q'
-= //	t
-""""
-    ; u8x = zchar[0  ] }
-MetaData
-    int {zchar[ 10]
-lengthOf	`` , i64 u8x char[] ,MetaDataX pack// `tick` ""quote"" 'q'
-`crlf
-line`
-, Logon charz `crlf
-line`
-    ,
-    // a // b
-    }
-")).
-Eval vm_compute in ("<<<M3562>>>" ++ check (runes_of_ascii "options
-    { LittleEndian= true
-
-    ;
-    }
-
-packet Logon
-	{	u8
-	x	, string user	,
-
-    }
-	packet
-Logout {
-u16 reason ,
-
-}
-
-packet
-	Empty {
-}
-
-root
-	packet
-Frame { u16	MsgType
-
-    ,
+packet a1  { @rightPad( '0'  )
+    // `tick` ""quote"" 'q'
+    float // a // b
 @lengthOf(
-Body) u8
-
-    BodyLen ,
-
-u8 flags	,
-Logon Body ,u32
-
-trailer ,}")).
-Eval vm_compute in ("<<<M765>>>" ++ check (runes_of_ascii "
-packet
-    msg_type // trailing space 
-{ match leftPad as float { 3 // packet A { u8 x, }
-: repeatCount// trailing space 
-,
-[ 0123456789 ,
-    // a // b
-    3
-    ,10	,65535 , // c
-1 ] : Header	, ""{,}"" : packetx	,
-    0 // @lengthOf(
-: _x//	t
-,  } , }
+stringy
+    ) `doc`
+,} options
+    {	As	= 7 crc = ""{,}""
+    u =""it's"" zchar= '\x00'
+}
 ")).
-Eval vm_compute in ("<<<M3553>>>" ++ check (runes_of_ascii "
-packet Sub
+Eval vm_compute in ("<<<M1451>>>" ++ check (runes_of_ascii "  options
 
-    {u8  a , u32
-
-SubSum@calculatedFrom(  ""CRC16"" )
-	, }
-root packet
-    Frame 
-{ u16  MsgType
-,u16
-
-    BodyLen@lengthOf(
-    Body)
-,Sub Body ,
-    string note, 
+    {	StringPrefixLenType  = 
 u32 
-Checksum
-    @calculatedFrom(
-""CRC16""
-	)
-,
+;
+    ArrayPrefixLenType
+
+    =
 	u8
 
-tail ,
-    }
-")).
-Eval vm_compute in ("<<<M1350>>>" ++ check (runes_of_ascii "packet charz
-    //	t
-    {
-@tag( 7 )@leftPad ( '0' ) @rightPad( '0'
-)repeat Logon
-, }  options // trailing space 
-{}
-    options {} MetaData  roots { float a1 `" ++ [233]%N ++ runes_of_ascii "`
-    // " ++ [27880; 37322]%N ++ runes_of_ascii "
-    ,  zchar[
-255 ]  calculatedFrom , u32 // " ++ [27880; 37322]%N ++ runes_of_ascii "
-Packet ,} //x")).
-Eval vm_compute in ("<<<M4466>>>" ++ check (runes_of_ascii "
+    ; 
+FixedStringPadFromLeft = false
 
-  packet
+    ;	}  packet
 
-pack{  @calculatedFrom( 
-""CRC32"")
+    Logon
+	{ i8 venue
+,	int16
 
-i8i8{
-	MetaDataX
+f1	,	zchar[  8]
 
-    @lengthOf(x  
-  //x
-	// packet A { u8 x, }
-	) ,char	As  @lengthOf(	len) ,
-    // " ++ [128512]%N ++ runes_of_ascii " emoji
-      //x
-  	chars metadata
-`say ""hi""`
-,  char[ 0]
-int,
-    } ,	}")).
-Eval vm_compute in ("<<<M2217>>>" ++ check (runes_of_ascii "MetaData Packet Packet { }packet	asx  { @lengthOf( asx) falsey`crlf
-line`
+Acct
+
 ,
+repeat
+
+    InNote16{ InQty73
+
+{
+
+float32 tag7,
     }
-    packet x	{uint32// @lengthOf(
-rootA	,u32 options1 `say ""hi""` , @tag( 7
-    )// packet A { u8 x, }
-msg_type @lengthOf(
-stringy	)	, }
 
-")).
-Eval vm_compute in ("<<<M3954>>>" ++ check (runes_of_ascii "options
-{ FixedStringPadChar =
-	'0'  ; } packet
-
-Q 
-{ zchar[ 4
-    ] z
-	,@rightPad  (	'\x00' ) char[
-
-3
-    ]  n ,
-	char[5 ]
-	d , }
-	root packet
-
-    R{
-Q
-    ,
+    ,f32 Acct
+,
 
     zchar[
-8
-    ] 
-top 
-, repeat
-zchar[2
-]zs, }")).
-Eval vm_compute in ("<<<M2383>>>" ++ check (runes_of_ascii "MetaData Packet { }packet	asx  { @lengthOf( asx) falsey`crlf
-line`
-,
-    " ++ [233]%N ++ runes_of_ascii "}
-    packet x	{uint32// @lengthOf(
-rootA	,u32 options1 `say ""hi""` , @tag( 7
-    )// packet A { u8 x, }
-msg_type @lengthOf(
-stringy	)	, }
 
-")).
-Eval vm_compute in ("<<<M2327>>>" ++ check (runes_of_ascii "MetaData Packet { }packet	asx  { @lengthOf( asx) falsey`crlf
-line`
-,
+    5 ]
+
+sym 
+,}
+
+    ,uint16
+
+    Side2,
+
+i32
+
+lastPx  ,  }
+    packet Fill
+
+{repeat  InOrderid15 {
+
+    zchar[8]	sym  , repeat
+char[2 ]
+
+    OrderId,repeat  Logon ,
+	InQty82
+
+{ char[]
+Tail  , repeat Logon  ,  float64 
+price  ,f64 Side2,	}
+, char[  12
+	] venue
+, char[
+    4
+
+]	Px  ,
     }
-    packet x	{uint32// @lengthOf(
-rootA	,u32 options1 `say ""hi""` @tag( , 7
-    )// packet A { u8 x, }
-msg_type @lengthOf(
-stringy	)	, }
+	,@rightPad 
+('0'
+    )
+    char[2	]
 
+venue ,InPrice99{
+InAcct72 {
+u8
+pad0 
+, 
+},  u32 OrderId
+	, Logon
+
+,
+
+    }
+,
+
+    }root
+
+packet Reject
+{
+    zchar[
+
+9]
+    msgKind ,
+u32
+venue ,	u16
+seqNo  @lengthOf( 
+Body )
+,
+match	venue
+as Body{
+
+57 :  Fill 
+, 
+8 :
+
+    Logon ,} ,
+u16
+Tail @calculatedFrom(
+""CRC32""
+    ) , }
 ")).
-Eval vm_compute in ("<<<M3488>>>" ++ check (runes_of_ascii "
+Eval vm_compute in ("<<<M61>>>" ++ check (runes_of_ascii "  root packet pack {zchar[	255
+    ] T`a\`
+    , char[] Z9_ @lengthOf(
+// c
+//x
+u8x  )
+    `two words` , A
+{ repeat  char[]
+    x  ``,
+// @lengthOf(
+/// triple
+repeat zchar[ //
+007  ] i64_
+    ,  } , uint8x @lengthOf(
+    i64_
+    )	``,
+}
+packet	calculatedFrom{ @leftPad ( )
+u32	calculatedFrom``
+,
+@tag(0123456789 // " ++ [27880; 37322]%N ++ runes_of_ascii "
+)@leftPad ( ) int8 _x
+``
+,
+match rootA as  u { // c
+10
+: Z9_ , 0123456789: float
+//
+// c
+0: float ,
+[ ""it's""/// triple
+]
+:
+packetx , } ,// `tick` ""quote"" 'q'
+@lengthOf( string_ ) zchar[ 0123456789
+    ] body @lengthOf(
+repeatCount	) ,
+    @calculatedFrom( ""\n"" ) match // `tick` ""quote"" 'q'
+body as u8x{ ""a\""b""
+    :T , [ ""\n"" ,// " ++ [27880; 37322]%N ++ runes_of_ascii "
+""" ++ [233]%N ++ runes_of_ascii "t" ++ [233]%N ++ runes_of_ascii """, ""CRC32"", 255 ,7
+, ""// no comment""
+,
+    """ ++ [28040; 24687]%N ++ runes_of_ascii """] : x , 255	: packetx } , @tag(65535 ) repeat
+    // a // b
+    Header
+zchar , } MetaData Logon { }
+")).
+Eval vm_compute in ("<<<M1600>>>" ++ check (runes_of_ascii "
+// top
+packet 	 // c0
+	  MDSnapshotZZ {  // c2a
 
-  options	{	FixedStringPadChar
+// c2b
+	u8
 
-    = '0';
-	}packet
-    Q
-{  zchar[
+a
+	    // c4
 
-4	]	z
+	,
+}  // c6
 
-    , @rightPad
-(
-'\x00'
+packet  // c7a
+  // c7b
 
+OrderACK	// c8a
+
+// c8b
+    {	u16 b 
+// c11
+  ,  // c12a
+
+// c12b
+}	// c13
+    	packet 
+      // c14
+	HTTPServerInfo 
+{
+	// c16
+	string	s
+	    // c18
+  	,}
+root// c21a
+  // c21b
+  packet  // c22
+  FIXMsg// c23
+  {	// c24
+u8  // c25
+
+  KType
+    ,  MDSnapshotZZ
+	,
+
+    repeat	// c30a
+
+// c30b
+    OrderACK
+
+// c31
+
+  ,	// c32a
+  // c32b
+	match  
+  // c33
+  	KType 	 // c34a
+// c34b
+  as 
+    // c35
+	Body	// c36
+	{1
+    :  // c39
+
+HTTPServerInfo 	 // c40
+	, // c41
+    2 // c42
+	:	// c43
+  OrderACK  // c44a
+	// c44b
+    ,  // c45
+
+  } 	 // c46a
+    	// c46b
+  ,// c47a
+	// c47b
+    }	// c48a
+    // c48b
+ 
+")).
+Eval vm_compute in ("<<<M193>>>" ++ check (runes_of_ascii "options {
+// c
+//x
+u128 = true ; Header // trailing space 
+= ""packet""
+    stringy =""CRC32"" A =
+    '0' ;} packet calculatedFrom  { repeat
+u128
+    Logon ,
+// packet A { u8 x, }
+// " ++ [128512]%N ++ runes_of_ascii " emoji
+}
+packet body { @calculatedFrom( ""\" ++ [233]%N ++ runes_of_ascii """
 )
-
-char[3] n,char[ 
-5  ]
-
-d
-	, }root	packet
-R
-    { Q
+    metadata
+`a\`  ,
+// c
+// c
+stringy{
+    //	t
+    uint8 A `tab	here` , repeat
+    u
+    // `tick` ""quote"" 'q'
+    As
+, /// triple
+zchar[
+65535]x_y_z@lengthOf(
+crc ) //
+, }  , @calculatedFrom(
+    ""{,}"" )len /// triple
+@lengthOf(	roots ) ,char[  7 ]BodyLength`{ , }` ,
+    // c
+    int64
+    _x , @calculatedFrom(""it's""// " ++ [27880; 37322]%N ++ runes_of_ascii "
+) match
+pack as As { ""CRC32"": o
     ,
-zchar[
-8  ]top
-	,	repeat 
-zchar[
-2 
-] zs,
-	}")).
-Eval vm_compute in ("<<<M2369>>>" ++ check (runes_of_ascii "MetaData Packet { }packet	asx  { @lengthOf( asx) falsey`crlf
-line`
+    } , zchar[ 4294967296]i64_@calculatedFrom( ""// no comment"" ) ,
+}
+")).
+Eval vm_compute in ("<<<M124>>>" ++ check (runes_of_ascii "packet
+crc// @lengthOf(
+{ @rightPad ( '0' ) char[7
+    // c
+    ]
+matchKey  @calculatedFrom( ""{,}"") , } packet x_y_z  {  @calculatedFrom( ""a\""b"" )
+T
+{ Header
+{
+    // packet A { u8 x, }
+    lengthOf
+packetx
+`// not a comment` ,A
+    i8i8 `crlf
+line` , string o `line1
+line2` ,
+string_ @lengthOf( tag ) `line1
+line2` , },
+    } ,
+match
+lengthOf as	Z9_ {
+""\" ++ [233]%N ++ runes_of_ascii """
+: A , }
+, match rootA as
+matchKey// `tick` ""quote"" 'q'
+{	[""`tick`""// @lengthOf(
+,""x y""
+] :  Packet, }
+, //x
+repeat zchar[
+    1 ]// a // b
+_x
+// " ++ [128512]%N ++ runes_of_ascii " emoji
+/// triple
+, char[]
+    msg_type , A rootA , } //")).
+Eval vm_compute in ("<<<M84>>>" ++ check (runes_of_ascii "MetaData
+    /// triple
+    Logon
+{zchar[
+    3 ] a1
+    `" ++ [28040; 24687; 31867; 22411]%N ++ runes_of_ascii "`
+    , char[ 007 ]
+MetaDataX `a\` ,
+}  root packet
+    pack { }
+packet
+    // trailing space 
+    i64_
+{  @lengthOf(chars
+)
+    len	{ uint8 rootA`doc` ,
+string_ `crlf
+line` //x
+, //	t
+match charz as
+Foo
+{
+    42 : options1 , [255
+    ]:charz
+    } , }, roots repeatCount
+    `two words` /// triple
 ,
-    }
-    packet x	{uint32// @lengthOf(
-rootA	,u32 options1 `say ""hi""` , @tag( 7
-    )// packet A { u8 x, }
-msg_type @lengthOf(
-stringy	)")).
-Eval vm_compute in ("<<<M3944>>>" ++ check (runes_of_ascii "options {
-    packetx = ' '
-    chars = ""a\""b"";
-    BodyLength = false
+    //	t
+    string Logon @calculatedFrom( ""a\""b"") , @calculatedFrom(// `tick` ""quote"" 'q'
+""a\\""	) Z9_
+    ,
+} //x")).
+Eval vm_compute in ("<<<M369>>>" ++ check (runes_of_ascii "
+MetaData
+// packet A { u8 x, }
+// @lengthOf(
+calculatedFrom {  zchar[
+    3 ] u8x
+, i32 o
+,
+    zchar[42
+//x
+// @lengthOf(
+]
+leftPad ,roots u
+//x
+//
+, }
+packet
+    trueish{ @leftPad
+    ( )asx
+    //	t
+    @lengthOf(
+i8i8
+) ,
+    @rightPad ( '\x00' )tag
+@lengthOf( Packet ) , Pad
+    // `tick` ""quote"" 'q'
+    options1 `doc` ,	@lengthOf(
+Header) match Z9_
+// c
+/// triple
+as zchar
+{ 4294967296 : o ,
+    } ,  } /// triple")).
+Eval vm_compute in ("<<<M1202>>>" ++ check (runes_of_ascii "// top
+packet
+    // c0
+u128 // c1
+{ // c2
+@lengthOf(
+    // c3
+body // c4a
+  // c4b
+) // c5
+match // c6
+x_y_z // c7
+as
+    // c8
+u // c9
+{ // c10a
+  // c10b
+""x y"" : // c12a
+  // c12b
+i8i8 , // c14a
+  // c14b
+} // c15a
+  // c15b
+,
+    // c16
+@tag(
+    // c17
+255 // c18
+)
+    // c19
+char[] // c20
+roots // c21a
+  // c21b
+@lengthOf( int
+    // c23
+)
+    // c24
+, // c25
+} // c26
+")).
+Eval vm_compute in ("<<<M1911>>>" ++ check (runes_of_ascii "// top
+MetaData x_y_z {
+    // c2
+    char body,// c5
+    f64 i8i8 `two words`,// c9
+    body body `" ++ [28040; 24687; 31867; 22411]%N ++ runes_of_ascii "`,// c13
+}// c14
+
+root packet chars {
+    // c18
+    @lengthOf(i64_)
+    // c21
+    chars,// c23
+    i8i8 {
+        // c25
+        falsey @lengthOf(stringy) `doc`,// c31
+    },// c33
+    x @lengthOf(A) `crlf
+    line`,// c39
+}// c40")).
+Eval vm_compute in ("<<<M314>>>" ++ check (runes_of_ascii "options
+{roots =3 leftPad
+/// triple
+// c
+= string	; packetx =	false ; zchar
+= true options1 = false ;
+    } MetaData
+    string_ {i32 x_y_z
+    ,char[ 4294967296
+] zchar`two words`
+, // c
+char[ 42 ] metadata
+, }packet _x {
+    int8 rootA`doc` ,
+    } options
+{ lengthOf =
+    ""// no comment"" } 	 ")).
+Eval vm_compute in ("<<<M1407>>>" ++ check (runes_of_ascii "packet FooBar
+    // c1
+{
+    // c2
+u8 // c3
+a
+    // c4
+, } // c6
+packet // c7
+foo_bar {
+    // c9
+u16 // c10a
+  // c10b
+b // c11a
+  // c11b
+, // c12a
+  // c12b
+} root // c14a
+  // c14b
+packet // c15
+R
+    // c16
+{ FooBar // c18
+, // c19
+foo_bar , // c21
+} // c22
+")).
+Eval vm_compute in ("<<<M297>>>" ++ check (runes_of_ascii "
+packet As
+{
+} MetaData Logon { i16 falsey
+`a\` // `tick` ""quote"" 'q'
+, } MetaData T { f64 uint8x `u8 x,` , // " ++ [128512]%N ++ runes_of_ascii " emoji
+char[	00 // @lengthOf(
+] T , char[
+    0
+    ]
+Pad
+// c
+// c
+`crlf
+line` , char[]
+    f32a ,
+char[] asx
+    , } //	t")).
+Eval vm_compute in ("<<<M432>>>" ++ check (runes_of_ascii "options
+{
+matchKey = 42/// triple
+x='0' ;
+// packet A { u8 x, }
+//
+charz charz
+=
+// packet A { u8 x, }
+// trailing space 
+true  ; } MetaData BodyLength
+{
+uint8
+pack,zchar[ 1]float ,  float32 x_y_z `` ,u32
+_x,i16 body  , }
+")).
+Eval vm_compute in ("<<<M392>>>" ++ check (runes_of_ascii "options
+{ {
+matchKey = 42/// triple
+x='0' ;
+// packet A { u8 x, }
+//
+charz
+=
+// packet A { u8 x, }
+// trailing space 
+true  ; } MetaData BodyLength
+{
+uint8
+pack,zchar[ 1]float ,  float32 x_y_z `` ,u32
+_x,i16 body  , }
+")).
+Eval vm_compute in ("<<<M498>>>" ++ check (runes_of_ascii "options
+{
+matchKey = 42/// triple
+x='0' ;
+// packet A { u8 x, }
+//
+charz
+=
+// packet A { u8 x, }
+// trailing space 
+true  ; } MetaData BodyLength
+{
+uint8
+pack,zchar[ 1 float] ,  float32 x_y_z `` ,u32
+_x,i16 body  , }
+")).
+Eval vm_compute in ("<<<M473>>>" ++ check (runes_of_ascii "options
+{
+matchKey = 42/// triple
+x='0' ;
+// packet A { u8 x, }
+//
+charz
+=
+// packet A { u8 x, }
+// trailing space 
+true  ; } MetaData BodyLength
+{
+pack
+uint8,zchar[ 1]float ,  float32 x_y_z `` ,u32
+_x,i16 body  , }
+")).
+Eval vm_compute in ("<<<M561>>>" ++ check (runes_of_ascii "options
+{
+matchKey = 42/// triple
+x='0' ;
+// packet A { u8 x, }
+//
+charz
+=
+// packet A { u8 x, }
+// trailing space 
+true  ; } MetaData BodyLength
+{
+uint8
+pack,zchar[ 1]float ,  float32 x_y_z `` ,u32
+_x,i16 body  , 
+")).
+Eval vm_compute in ("<<<M1879>>>" ++ check (runes_of_ascii "options {
+    matchKey = 42/// triple
+    x = '0';
+    // packet A { u8 x, }
+    //
+    charz = true;
+}
+
+MetaData BodyLength {
+    uint8 pack,
+    zchar[1] float,
+    float32 x_y_z ``,
+    u32 _x,
+    i16 body,
+}")).
+Eval vm_compute in ("<<<M155>>>" ++ check (runes_of_ascii "packet pack
+    { @calculatedFrom(
+""CRC32""
+) i8i8 { MetaDataX @lengthOf( x
+//x
+// packet A { u8 x, }
+), char As @lengthOf( len	) ,
+// " ++ [128512]%N ++ runes_of_ascii " emoji
+//x
+chars metadata `say ""hi""` , char[ 0] int ,}, }
+")).
+Eval vm_compute in ("<<<M1942>>>" ++ check (runes_of_ascii "root packet stringy {
+    charz T `u8 x,`,
+    char tag,
+    uint64 u128,
+}
+
+options {
+    x = '0'// `tick` ""quote"" 'q'
+    rootA = ""CRC32"";// " ++ [27880; 37322]%N ++ runes_of_ascii "
+    i64_ = ""a\\"";
 }
 
 options {
 }
+// " ++ [27880; 37322]%N)).
+Eval vm_compute in ("<<<M711>>>" ++ check (runes_of_ascii "// c
+packet i64_ {	char[] calculatedFrom , } packet
+trueish  {@calculatedFrom(
+""a\\"" ) o { i32 falsey@lengthOf( uint8x ),
+} , } // `tick` ""quote"" 'q'
+options {// c
+Z9_ = }//
+' '
+")).
+Eval vm_compute in ("<<<M1752>>>" ++ check (runes_of_ascii "
+packet
+rootA// packet A { u8 x, }
+    {tag`u8 x,`
+	, char[]
 
-// " ++ [128512]%N ++ runes_of_ascii " emoji
-// c
-root packet A {
-    @rightPad('0')
-    crc {
-        i16 calculatedFrom,
-    },
-    repeat i8 Foo,
-}")).
-Eval vm_compute in ("<<<M67>>>" ++ check (runes_of_ascii "MetaData Pad { Z9_
-    // c
-    pack ,u8 asx
-    , i32
-    MetaDataX , int8 // `tick` ""quote"" 'q'
-x_y_z ,u128 f32a, calculatedFrom calculatedFrom
-    `say ""hi""`  ,
-    // trailing space 
-    }
-")).
-Eval vm_compute in ("<<<M3949>>>" ++ check (runes_of_ascii "packet falsey {
-}
+    o ,
+    i8i8 @lengthOf( 
+    // @lengthOf(
+stringy
 
-MetaData x {
-    body len,
-    lengthOf trueish `two words`,
-    zchar[65535] Header `it's`,
-    packetx uint8x `
-    `,
-    int32 As,
-}
+    )
 
-// " ++ [128512]%N ++ runes_of_ascii " emoji
-root packet i8i8 {
-}")).
-Eval vm_compute in ("<<<M1197>>>" ++ check (runes_of_ascii "
-options  { Z9_ =
-""\n"" ;calculatedFrom = ""packet"" ;zchar
-= ' ' ; } MetaData
-    asx { repeatCount	uint8x  `two words`
-    ,  a1 A `u8 x,`,
-Packet Z9_`crlf
-line`
-, } options { }
+`// not a comment`
+, 
+	    // " ++ [128512]%N ++ runes_of_ascii " emoji
+  }
 ")).
-Eval vm_compute in ("<<<M958>>>" ++ check (runes_of_ascii "packet trueish { @calculatedFrom( """ ++ [128512]%N ++ runes_of_ascii """ ) char[42 ] leftPad , pack ,@tag(	10	) packetx BodyLength , }	options { metadata
-    = ""it's""charz= u64; // " ++ [128512]%N ++ runes_of_ascii " emoji
-metadata= ' '
-;}
-")).
-Eval vm_compute in ("<<<M1131>>>" ++ check (runes_of_ascii "packet matchKey
-    {@calculatedFrom(	""" ++ [28040; 24687]%N ++ runes_of_ascii """
-    ) // " ++ [128512]%N ++ runes_of_ascii " emoji
-match  tag/// triple
-as// c
-Foo {
-[ ""a\""b""	, 255 //x
-]:trueish
-// c
-// " ++ [27880; 37322]%N ++ runes_of_ascii "
-,  } , // a // b
-}options{
-}
-")).
-Eval vm_compute in ("<<<M447>>>" ++ check (runes_of_ascii "root  packet msg_type
-// " ++ [27880; 37322]%N ++ runes_of_ascii "
-//	t
-{ string lengthOf `a\`
+Eval vm_compute in ("<<<M1512>>>" ++ check (runes_of_ascii "
+
+  packet 
+A{ 
+match	k as
+n  {
+    [1
+	,""bb""	,007 
+, 
+""d""
+
 ,
-    @tag( 65535) rootA calculatedFrom , char[]	crc `{ , }`  ,
-zchar[
-// c
-//	t
-65535 ]msg_type , }
-")).
-Eval vm_compute in ("<<<M4379>>>" ++ check (runes_of_ascii "MetaData i64_ {
-    float32 BodyLength,
-    int8 tag `two words`,
-    roots a1 `crlf
-    line`,
-}
+    5
 
-MetaData f32a {
-    int64 o `tab	here`,
-    i32 A,
-}")).
-Eval vm_compute in ("<<<M4274>>>" ++ check (runes_of_ascii "// top
-packet calculatedFrom {
-    // c2
-    @tag(4294967296)
-    // c5
-    u msg_type,// c8
-    char[3] crc @lengthOf(len) `u8 x,`,// c17
-}// c18")).
-Eval vm_compute in ("<<<M4019>>>" ++ check (runes_of_ascii "packet 
-A{ match
+    ,
+	""f"" ,
 
-k
-as	n { [1, 
-22 
-,  ""c c"" ,
+7
+,""h""
+,
 
-    4,
+    9  ,""j"", 11
+,
+""l""
 
-5
-    , 
-""f""  ,
-
-7  , 8,""i""
-    ,  10
-
-    ,	11 
 ]:
 	B
-,  2
-:
-	C
 
-    } ,
-	}
+    2:
 
-")).
-Eval vm_compute in ("<<<M4075>>>" ++ check (runes_of_ascii "options
-
-{ Header
-
-=  4294967296
-
-    charz=
-    true Pad 
-=
-
-'\x00'
-charz =
-// `tick` ""quote"" 'q'
-  """"
-;}
-	MetaData
-	MetaDataX
-
-{}")).
-Eval vm_compute in ("<<<M1643>>>" ++ check (runes_of_ascii "root packet /// triple
-rootA {	i32 i32
-MetaDataX@calculatedFrom( ""CRC32"" ) `line1
-line2` , } MetaData BodyLength {
-u8
-rootA, } // c")).
-Eval vm_compute in ("<<<M2324>>>" ++ check (runes_of_ascii "MetaData Packet { }packet	asx  { @lengthOf( asx) falsey`crlf
-line`
-,
-    }
-    packet x	{uint32// @lengthOf(
-rootA	,u32 options1")).
-Eval vm_compute in ("<<<M1694>>>" ++ check (runes_of_ascii "root packet /// triple
-rootA {	i32
-MetaDataX@calculatedFrom( ""CRC32"" ) `line1
-line2` , } MetaData BodyLength u8
-{
-rootA, } // c")).
-Eval vm_compute in ("<<<M612>>>" ++ check (runes_of_ascii "options
-{Header =
-4294967296 charz =true Pad =	'\x00'charz=
-    // `tick` ""quote"" 'q'
-    """"
-    ; } MetaData MetaDataX { }")).
-Eval vm_compute in ("<<<M526>>>" ++ check (runes_of_ascii "packet options1 { @calculatedFrom( ""a\\""
-)  Logon	@calculatedFrom(
-""" ++ [233]%N ++ runes_of_ascii "t" ++ [233]%N ++ runes_of_ascii """ // c
-)`a\` ,
-float32 packetx
-    `
-` ,} // a // b")).
-Eval vm_compute in ("<<<M1808>>>" ++ check (runes_of_ascii "packet
-    Pad // a // b
-{ i8i8 @calculatedFrom( @rightPad) `u8 x,` ,
-} options{ float// " ++ [128512]%N ++ runes_of_ascii " emoji
-= f64 i64_
-=//	t
-00 }
-")).
-Eval vm_compute in ("<<<M1821>>>" ++ check (runes_of_ascii "packet
-    Pad // a // b
-{ i8i8 @calculatedFrom( ""a	b"") `u8 x,` , ,
-} options{ float// " ++ [128512]%N ++ runes_of_ascii " emoji
-= f64 i64_
-=//	t
-00 }
-")).
-Eval vm_compute in ("<<<M3717>>>" ++ check (runes_of_ascii "packet repeatCount {
-}
-
-packet charz {
-    @calculatedFrom(""// no comment"")
-    int32 msg_type @lengthOf(f32a),
-}// " ++ [27880; 37322]%N)).
-Eval vm_compute in ("<<<M2991>>>" ++ check (runes_of_ascii "packet A {
-  match k as n {
-    [""a"", ""bb"", ""c c"", ""d"", ""e"", ""f"", ""g"", ""h"", ""i"", ""j"", ""k"", ""l""] : B,
-    2 : C
-  },
-}")).
-Eval vm_compute in ("<<<M1875>>>" ++ check (runes_of_ascii "packet
-    Pad // a // b
-{ i8i8 @calculatedFrom( ""a	b"") `u8 x,` ,
-} options{ float// " ++ [128512]%N ++ runes_of_ascii " emoji
-= f64 i64_
-=//	t
-00 ")).
-Eval vm_compute in ("<<<M1805>>>" ++ check (runes_of_ascii "packet
-    Pad // a // b
-{ i8i8 @calculatedFrom( ) `u8 x,` ,
-} options{ float// " ++ [128512]%N ++ runes_of_ascii " emoji
-= f64 i64_
-=//	t
-00 }
-")).
-Eval vm_compute in ("<<<M4474>>>" ++ check (runes_of_ascii "  packet
-    Logon  {
-
-@tag(
-42)
-
-@rightPad( 
-  // c
-' '
-) @leftPad()  repeat
-
-trueish
-{
-	string 
-T, } 
-, }
-")).
-Eval vm_compute in ("<<<M1803>>>" ++ check (runes_of_ascii "packet
-    Pad // a // b
-{ i8i8 int16 ""a	b"") `u8 x,` ,
-} options{ float// " ++ [128512]%N ++ runes_of_ascii " emoji
-= f64 i64_
-=//	t
-00 }
-")).
-Eval vm_compute in ("<<<M4374>>>" ++ check (runes_of_ascii "  packet charz
-{ 	 // trailing space 
-	@tag(255 )  @calculatedFrom(
-""packet"" ) u32 repeatCount ,// c
-	}
-")).
-Eval vm_compute in ("<<<M3361>>>" ++ check (runes_of_ascii "packet calculatedFrom { @tag( 4294967296 ) u msg_type , char[ 3 ] // c
-crc @lengthOf( len ) `u8 x,` , }")).
-Eval vm_compute in ("<<<M2974>>>" ++ check (runes_of_ascii "packet A {
-  match k as n {
-    [""a"", ""bb"", 007, ""d"", ""e"", 66, ""g"", ""h"", 9, ""j""] : B
-    2 : C
-  },
-}")).
-Eval vm_compute in ("<<<M3696>>>" ++ check (runes_of_ascii "
-packet A
-    { match  k 
-as n	{ [
-
-    1 ,22,	007 ,  4 , 5 ]:  B 
-2:
-
-    C 
-}
-
-,
+C}
+    ,
 
     }
 
 ")).
-Eval vm_compute in ("<<<M327>>>" ++ check (runes_of_ascii "MetaData
-    // " ++ [128512]%N ++ runes_of_ascii " emoji
-    msg_type { As  roots , i32  rootA, f64 falsey  ,
-char[]
-rootA ,}
-")).
-Eval vm_compute in ("<<<M3237>>>" ++ check (runes_of_ascii "packet Logon { @tag( 42 ) @rightPad ( ' ' ) @leftPad
-// c
-( ) repeat trueish { string T , } , }")).
-Eval vm_compute in ("<<<M2957>>>" ++ check (runes_of_ascii "packet A {
-  match k as n {
-    [""a"", 22, ""c c"", 4, ""e"", 66, ""g"", 8, ""i""] : B
-    2 : C
-  },
-}")).
-Eval vm_compute in ("<<<M1987>>>" ++ check (runes_of_ascii "root
-packet crc
-    { f32a @calculatedFrom( """ ++ [233]%N ++ runes_of_ascii "t" ++ [233]%N ++ runes_of_ascii """ """ ++ [233]%N ++ runes_of_ascii "t" ++ [233]%N ++ runes_of_ascii """ )
-    `say ""hi""`, lengthOf `` ,  }")).
-Eval vm_compute in ("<<<M2944>>>" ++ check (runes_of_ascii "packet A {
-  match k as n {
-    [""a"", 22, ""c c"", 4, ""e"", 66, ""g"", 8] : B
-    2 : C
-  },
-}")).
-Eval vm_compute in ("<<<M2930>>>" ++ check (runes_of_ascii "packet A {
-  match k as n {
-    [""a"", 22, ""c c"", 4, ""e"", 66, ""g""] : B,
-    2 : C
-  },
-}")).
-Eval vm_compute in ("<<<M4111>>>" ++ check (runes_of_ascii "
-
-  root
-packet  f32a  {
-packetx  @calculatedFrom( ""CRC32"")
-    // a // b
-
-//x
-	, } ")).
-Eval vm_compute in ("<<<M1991>>>" ++ check (runes_of_ascii "root
-packet crc
-    { f32a @calculatedFrom( """ ++ [233]%N ++ runes_of_ascii "t" ++ [233]%N ++ runes_of_ascii """ 
-    `say ""hi""`, lengthOf `` ,  }")).
-Eval vm_compute in ("<<<M1966>>>" ++ check (runes_of_ascii "root
-packet 
-    { f32a @calculatedFrom( """ ++ [233]%N ++ runes_of_ascii "t" ++ [233]%N ++ runes_of_ascii """ )
-    `say ""hi""`, lengthOf `` ,  }")).
-Eval vm_compute in ("<<<M3304>>>" ++ check (runes_of_ascii "packet o { @tag( 42 ) // c
-repeat x { char[ 0123456789 ] i64_ , } , } options { }")).
-Eval vm_compute in ("<<<M4030>>>" ++ check (runes_of_ascii "packet orderItem {
-    u8 a,
-}
-
-root packet newOrder {
-    orderItem,
-    u8 x,
-}")).
-Eval vm_compute in ("<<<M3607>>>" ++ check (runes_of_ascii "packet
-As {	char[ 42
-    ]
-
-    o`it's`  
-      // @lengthOf(
-		,
-
-    }
-")).
-Eval vm_compute in ("<<<M859>>>" ++ check (runes_of_ascii "
-options // `tick` ""quote"" 'q'
-{ Packet =
-'0' ;
-// " ++ [27880; 37322]%N ++ runes_of_ascii "
-// " ++ [27880; 37322]%N ++ runes_of_ascii "
-x	=
-    42 ; }
-")).
-Eval vm_compute in ("<<<M2896>>>" ++ check (runes_of_ascii "packet A {
-  match k as n {
-    [""a"", ""bb"", 007, ""d""] : B
-    2 : C
-  },
-}")).
-Eval vm_compute in ("<<<M3661>>>" ++ check (runes_of_ascii "packet A {
-    match
-    k
-
-as
-    n
-{[ 1 , ""a""
-,2 ] : B
-	,} 
-,
-    }
-")).
-Eval vm_compute in ("<<<M3396>>>" ++ check (runes_of_ascii "MetaData
-// c
-_x { zchar[ 4294967296 ] lengthOf `// not a comment` , }")).
-Eval vm_compute in ("<<<M3458>>>" ++ check (runes_of_ascii "root packet P {
-    u16 a,
-    u32 Sum @calculatedFrom(""CR\
-C32""),
-}
-")).
-Eval vm_compute in ("<<<M930>>>" ++ check (runes_of_ascii "MetaData u8x{  char[ 0123456789 ]T  ,} options
-    {roots =
-u64 ; }")).
-Eval vm_compute in ("<<<M2936>>>" ++ check (runes_of_ascii "packet A { Inner { match k as n { [1,22,007,4,5,66,7] : B, }, }, }")).
-Eval vm_compute in ("<<<M2923>>>" ++ check (runes_of_ascii "packet A { Inner { match k as n { [1,22,007,4,5,66] : B, }, }, }")).
-Eval vm_compute in ("<<<M214>>>" ++ check (runes_of_ascii "
-MetaData string_ {Header
-    roots ,} MetaData
-MetaDataX	{ }")).
-Eval vm_compute in ("<<<M634>>>" ++ check (runes_of_ascii "  packet	As {char[ 42
-]	o
-`it's`
-    // @lengthOf(
-    ,  }")).
-Eval vm_compute in ("<<<M1254>>>" ++ check (runes_of_ascii "MetaData int {	i32 calculatedFrom
-`// not a comment` , }
-")).
-Eval vm_compute in ("<<<M1952>>>" ++ check (runes_of_ascii "
-packet	As { @calculatedFrom(//x
-""{,}""	)lengthOf" ++ [0]%N ++ runes_of_ascii " , } 	 ")).
-Eval vm_compute in ("<<<M3868>>>" ++ check (runes_of_ascii "
-
-  options
-	    // a // b
-    	// @lengthOf(
-  { }
-")).
-Eval vm_compute in ("<<<M2409>>>" ++ check (runes_of_ascii "MetaData A
-{
+Eval vm_compute in ("<<<M1522>>>" ++ check (runes_of_ascii "MetaData
+falsey {  i64	A	// " ++ [27880; 37322]%N ++ runes_of_ascii "
+	,
 string
-chars	, } // `tick` ""quote"" 'q'")).
-Eval vm_compute in ("<<<M620>>>" ++ check (runes_of_ascii "MetaData //
-body{
-    } // c
-options { // " ++ [27880; 37322]%N ++ runes_of_ascii "
-}
+
+    Header , zchar[ 10 ]
+
+Foo `" ++ [28040; 24687; 31867; 22411]%N ++ runes_of_ascii "`
+    // @lengthOf(
+    ,packetx
+body , 
+f32a
+MetaDataX
+	`it's`,}")).
+Eval vm_compute in ("<<<M627>>>" ++ check (runes_of_ascii "MetaData
+    // trailing space 
+    matchKey
+{ u64 chars // a // b
+,char[] lengthOf `// not a comment` `// not a comment`
+    , //	t
+}")).
+Eval vm_compute in ("<<<M1673>>>" ++ check (runes_of_ascii "
+packet
+Logon { @tag( 42  )  @rightPad  (
+' ' )
+
+@leftPad
+
+    ()
+
+    repeat
+    trueish {
+string
+    T  ,}
+	,
+// c
+	}
+
 ")).
-Eval vm_compute in ("<<<M3750>>>" ++ check (runes_of_ascii "options {
-    float = 4294967296;
+Eval vm_compute in ("<<<M450>>>" ++ check (runes_of_ascii "options
+{
+matchKey = 42/// triple
+x='0' ;
+// packet A { u8 x, }
+//
+charz
+=
+// packet A { u8 x, }
+// trailing space 
+true")).
+Eval vm_compute in ("<<<M646>>>" ++ check (runes_of_ascii "MetaData
+    // trailing space 
+    matchKey
+{ u64 ? chars // a // b
+,char[] lengthOf `// not a comment`
+    , //	t
+}")).
+Eval vm_compute in ("<<<M603>>>" ++ check (runes_of_ascii "MetaData
+    // trailing space 
+    matchKey
+{ chars u64 // a // b
+,char[] lengthOf `// not a comment`
+    , //	t
+}")).
+Eval vm_compute in ("<<<M1599>>>" ++ check (runes_of_ascii "options {
+    pack = 0
 }
 
-options {
+MetaData int {
+    char[00] T `crlf
+    line`,
+    i8 string_,//	t
+    int16 matchKey,
 }")).
-Eval vm_compute in ("<<<M4143>>>" ++ check (runes_of_ascii "
-// packet A { u8 x, }
-	// `tick` ""quote"" 'q'
-")).
-Eval vm_compute in ("<<<M2608>>>" ++ check (runes_of_ascii "packet A { match k as n { [1,""a"",2] : B, }, }")).
-Eval vm_compute in ("<<<M1091>>>" ++ check (runes_of_ascii "// " ++ [128512]%N ++ runes_of_ascii " emoji
-MetaData
-    tag
-{ /// triple
+Eval vm_compute in ("<<<M639>>>" ++ check (runes_of_ascii "MetaData
+    // trailing space 
+    matchKey
+{ u64 chars // a // b
+,char[] lengthOf `// not a comment`
+    ,")).
+Eval vm_compute in ("<<<M907>>>" ++ check (runes_of_ascii "packet A {
+  match k as n {
+    [1, ""bb"", 007, ""d"", 5, ""f"", 7, ""h"", 9, ""j"", 11, ""l""] : B,
+    2 : C
+  },
 }")).
-Eval vm_compute in ("<<<M60>>>" ++ check (runes_of_ascii "root packet u
-    /// triple
-    {
+Eval vm_compute in ("<<<M1260>>>" ++ check (runes_of_ascii "packet calculatedFrom { @tag(
+// c
+4294967296 ) u msg_type , char[ 3 ] crc @lengthOf( len ) `u8 x,` , }")).
+Eval vm_compute in ("<<<M1840>>>" ++ check (runes_of_ascii "
+options 
+{
+LittleEndian
+    =
+    true;} root
+packet P { 
+repeat
+
+char cs
+
+    , u8 x
+
+,
+
     }
 ")).
-Eval vm_compute in ("<<<M2106>>>" ++ check (runes_of_ascii "MetaData x x
-{// " ++ [128512]%N ++ runes_of_ascii " emoji
-i16 stringy , }")).
-Eval vm_compute in ("<<<M3204>>>" ++ check (runes_of_ascii "MetaData zchar { zchar[ 3 ] Pad , // c
+Eval vm_compute in ("<<<M2020>>>" ++ check (runes_of_ascii "
+
+  packet
+A{  match 
+k as
+    n {  [ 1
+
+, 
+22 
+,  007,
+
+4	,
+
+5] :
+	B,
+    2
+    : C}
+,
+
+    } ")).
+Eval vm_compute in ("<<<M1138>>>" ++ check (runes_of_ascii "packet Logon { @tag( 42 // c
+) @rightPad ( ' ' ) @leftPad ( ) repeat trueish { string T , } , }")).
+Eval vm_compute in ("<<<M1170>>>" ++ check (runes_of_ascii "packet Logon { @tag( 42 ) @rightPad ( ' ' ) @leftPad ( ) repeat trueish { string T , } , // c
 }")).
-Eval vm_compute in ("<<<M1443>>>" ++ check (runes_of_ascii "root packet Foo // " ++ [128512]%N ++ runes_of_ascii " emoji
-{ } options")).
-Eval vm_compute in ("<<<M2105>>>" ++ check (runes_of_ascii "MetaData 
-{// " ++ [128512]%N ++ runes_of_ascii " emoji
-i16 stringy , }")).
-Eval vm_compute in ("<<<M4120>>>" ++ check (runes_of_ascii "MetaData zchar {
-    zchar[3] Pad,
+Eval vm_compute in ("<<<M1836>>>" ++ check (runes_of_ascii "packet As {
+    int16 A,
+}
+
+packet u {
+    @lengthOf(Pad)
+    f64 metadata @lengthOf(a1),
 }")).
-Eval vm_compute in ("<<<M3175>>>" ++ check (runes_of_ascii "packet A { @tag( // a
- 1 ) u8 x, }")).
-Eval vm_compute in ("<<<M3043>>>" ++ check (runes_of_ascii "root packet A {
+Eval vm_compute in ("<<<M935>>>" ++ check (runes_of_ascii "packet A {
+    B b `a
+    b
+  c`,
+    B `a
+    b
+  c`,
+    repeat B bs `a
+    b
+  c`,
+}")).
+Eval vm_compute in ("<<<M1500>>>" ++ check (runes_of_ascii "packet A {
+    match k as n {
+        // b
+        1 : B,
+        // f
+    },// h
+}")).
+Eval vm_compute in ("<<<M1221>>>" ++ check (runes_of_ascii "packet o { @tag( 42 ) repeat
+// c
+x { char[ 0123456789 ] i64_ , } , } options { }")).
+Eval vm_compute in ("<<<M68>>>" ++ check (runes_of_ascii "options { stringy=""x y""  ;
+chars
+=true Logon = string crc = true Logon
+= char }")).
+Eval vm_compute in ("<<<M819>>>" ++ check (runes_of_ascii "packet A {
+  match k as n {
+    [""a"", 22, ""c c"", 4, ""e""] : B
+    2 : C
+  },
+}")).
+Eval vm_compute in ("<<<M41>>>" ++ check (runes_of_ascii "MetaData// " ++ [128512]%N ++ runes_of_ascii " emoji
+charz
+{zchar[
+    42] packetx
+    `crlf
+line` , } 	 ")).
+Eval vm_compute in ("<<<M620>>>" ++ check (runes_of_ascii "MetaData
+    // trailing space 
+    matchKey
+{ u64 chars // a // b
+,")).
+Eval vm_compute in ("<<<M294>>>" ++ check (runes_of_ascii "
+packet
+    //x
+    MetaDataX { repeat rootA `two words` //x
+,//
+}")).
+Eval vm_compute in ("<<<M252>>>" ++ check (runes_of_ascii "packet
+f32a { //
+@tag( 1 )  Z9_ chars ,chars// " ++ [128512]%N ++ runes_of_ascii " emoji
+`
+`, }
+")).
+Eval vm_compute in ("<<<M1344>>>" ++ check (runes_of_ascii "root packet P {
+    hdr {
+        u8 a,
+    },
+    u8 x,
+}
+")).
+Eval vm_compute in ("<<<M1092>>>" ++ check (runes_of_ascii "packet A { repeat // a
+ B // b
+ b // c
+ `d` // e
+ , }")).
+Eval vm_compute in ("<<<M956>>>" ++ check (runes_of_ascii "MetaData M {
     u8 x `
 x`,
+    T t `
+x`,
 }")).
-Eval vm_compute in ("<<<M2054>>>" ++ check (runes_of_ascii "MetaData options { u64 pack, }")).
-Eval vm_compute in ("<<<M937>>>" ++ check (runes_of_ascii "packet  f32a {stringy
-`` , }
-")).
-Eval vm_compute in ("<<<M2839>>>" ++ check (runes_of_ascii """{,}"" uint32 MetaData packet")).
-Eval vm_compute in ("<<<M4479>>>" ++ check (runes_of_ascii "  options
-
-{ int	= i16 
-;
-}")).
-Eval vm_compute in ("<<<M1308>>>" ++ check (runes_of_ascii "
-root
-packet len
-{
-    }
-")).
-Eval vm_compute in ("<<<M1003>>>" ++ check (runes_of_ascii "packet repeatCount {} //")).
-Eval vm_compute in ("<<<M3385>>>" ++ check (runes_of_ascii "packet lengthOf
+Eval vm_compute in ("<<<M1113>>>" ++ check (runes_of_ascii "MetaData zchar { zchar[ 3
 // c
-{ }")).
-Eval vm_compute in ("<<<M227>>>" ++ check (runes_of_ascii " // packet A { u8 x, }")).
-Eval vm_compute in ("<<<M2069>>>" ++ check (runes_of_ascii "MetaData A { u64 ,, }")).
-Eval vm_compute in ("<<<M2699>>>" ++ check ([65533; 65533]%N ++ runes_of_ascii "0" ++ [65533; 5; 65533]%N ++ runes_of_ascii "b_" ++ [65533]%N ++ runes_of_ascii "!" ++ [11; 65533; 65533; 65533; 29; 65533]%N ++ runes_of_ascii "XR" ++ [65533]%N ++ runes_of_ascii ";")).
-Eval vm_compute in ("<<<M3628>>>" ++ check (runes_of_ascii "packet A {
-    x,
+] Pad , }")).
+Eval vm_compute in ("<<<M1080>>>" ++ check (runes_of_ascii "options { a = 1; // a
+ b = 2 // b
+ }")).
+Eval vm_compute in ("<<<M1756>>>" ++ check (runes_of_ascii "packet
+A 
+{
+u8 x	`tab
+	x`
+, 
 }")).
-Eval vm_compute in ("<<<M3072>>>" ++ check (runes_of_ascii "// c" ++ [160]%N ++ runes_of_ascii "
+Eval vm_compute in ("<<<M1032>>>" ++ check (runes_of_ascii "packet A {
+ u8 x `d" ++ [11]%N ++ runes_of_ascii "`, // c" ++ [11]%N ++ runes_of_ascii "
+}")).
+Eval vm_compute in ("<<<M1733>>>" ++ check (runes_of_ascii "
+
+  packet
+A { }  // c" ++ [8232]%N ++ runes_of_ascii "
+")).
+Eval vm_compute in ("<<<M1301>>>" ++ check (runes_of_ascii "packet lengthOf {
+// c
+}")).
+Eval vm_compute in ("<<<M1041>>>" ++ check (runes_of_ascii "// c 	
 packet A {
 }")).
-Eval vm_compute in ("<<<M37>>>" ++ check (runes_of_ascii "MetaData charz{ }")).
-Eval vm_compute in ("<<<M3119>>>" ++ check (runes_of_ascii "packet A {
-}// c" ++ [12]%N)).
-Eval vm_compute in ("<<<M2224>>>" ++ check (runes_of_ascii "MetaData Packet")).
-Eval vm_compute in ("<<<M2751>>>" ++ check ([26; 21]%N ++ runes_of_ascii "G" ++ [65533]%N ++ runes_of_ascii "t~" ++ [28]%N ++ runes_of_ascii "?" ++ [65533]%N ++ runes_of_ascii "w" ++ [65533; 65533]%N)).
-Eval vm_compute in ("<<<M2113>>>" ++ check (runes_of_ascii "MetaData x")).
-Eval vm_compute in ("<<<M1746>>>" ++ check (runes_of_ascii "options")).
-Eval vm_compute in ("<<<M2512>>>" ++ check (runes_of_ascii """a\b""")).
-Eval vm_compute in ("<<<M2724>>>" ++ check (runes_of_ascii "d=hM_")).
-Eval vm_compute in ("<<<M2476>>>" ++ check (runes_of_ascii "'  '")).
-Eval vm_compute in ("<<<M2515>>>" ++ check (runes_of_ascii """`""")).
-Eval vm_compute in ("<<<M2517>>>" ++ check (runes_of_ascii "``")).
-Eval vm_compute in ("<<<M2702>>>" ++ check (runes_of_ascii "{")).
+Eval vm_compute in ("<<<M1031>>>" ++ check (runes_of_ascii "// c" ++ [11]%N ++ runes_of_ascii "
+packet A {
+}")).
+Eval vm_compute in ("<<<M1043>>>" ++ check (runes_of_ascii "packet A {
+}// c" ++ [8203]%N)).
+Eval vm_compute in ("<<<M595>>>" ++ check (runes_of_ascii "MetaData")).
+Eval vm_compute in ("<<<M732>>>" ++ check (runes_of_ascii "
+
+
+")).
